@@ -12,16 +12,15 @@ Definition show_fres (r : fres) : string :=
   end.
 Definition check (rs : list rune) : string := digest (show_fres (format_res rs)).
 Definition full (rs : list rune) : string := show_fres (format_res rs).
-Eval vm_compute in ("<<<M4517>>>" ++ check (runes_of_ascii "options {
+Eval vm_compute in ("<<<M3661>>>" ++ check (runes_of_ascii "options {
     ArrayPrefixLenType = u16;
     FixedStringPadFromLeft = true;
     JavaPackage = ""co\
-    m.example.msg"";
+m.example.msg"";
     GoPackage = ""ms\
-    g"";
+g"";
     GoModule = ""example.com/msg"";
 }
-
 MetaData Meta {
     u32 SeqNum `sequence number`,
     char[8] Symbol `symbol`,
@@ -30,31 +29,25 @@ MetaData Meta {
     Symbol AltSymbol `alias of symbol`,
     f64 Price,
 }
-
 packet Inner {
     u8 a,
     i16 b,
     string c,
 }
-
 packet Inner2 {
     u8 a2,
     char[3] c2,
 }
-
 packet Logon {
     u8 x,
     string user,
     repeat u16 codes,
 }
-
 packet Logout {
     u16 reason,
 }
-
 packet Empty {
 }
-
 root packet Msg {
     u8 su8,
     uint8 luint8,
@@ -77,25 +70,16 @@ root packet Msg {
     f64 sf64,
     float64 lfloat64,
     char[6] fsplain,
-    @leftPad('0')
-    char[4] fs0,
-    @rightPad('0')
-    char[5] fs1,
-    @leftPad(' ')
-    char[6] fs2,
-    @rightPad(' ')
-    char[7] fs3,
-    @leftPad('\x00')
-    char[8] fs4,
-    @rightPad('\x00')
-    char[9] fs5,
-    @leftPad()
-    char[10] fs6,
-    @rightPad()
-    char[11] fs7,
+    @leftPad('0') char[4] fs0,
+    @rightPad('0') char[5] fs1,
+    @leftPad(' ') char[6] fs2,
+    @rightPad(' ') char[7] fs3,
+    @leftPad('\x00') char[8] fs4,
+    @rightPad('\x00') char[9] fs5,
+    @leftPad() char[10] fs6,
+    @rightPad() char[11] fs7,
     zchar[7] fz,
-    @leftPad('0')
-    zchar[3] fzl0,
+    @leftPad('0') zchar[3] fzl0,
     string s1 `doc`,
     char[] s2,
     Inner,
@@ -144,7 +128,8 @@ root packet Msg {
         9 : Empty,
     },
     u32 Checksum @calculatedFrom(""CRC32""),
-}")).
+}
+")).
 Eval vm_compute in ("<<<M697>>>" ++ check (runes_of_ascii "MetaData	leftPad { Header
     falsey ,} packet x_y_z	{  @calculatedFrom( ""`tick`"" )
 @rightPad // `tick` ""quote"" 'q'
@@ -241,1819 +226,1726 @@ zchar[7
     root
 packet u{ // c
 repeat uint64 As, } 	 ")).
-Eval vm_compute in ("<<<M3764>>>" ++ check (runes_of_ascii "packet uint8x { match
-
-Pad as // " ++ [128512]%N ++ runes_of_ascii " emoji
-repeatCount  {	[	0]:lengthOf
-,[  ""// no comment"" ] :
-
-    metadata
-,
-	}
-    ,
-metadata  
-      // trailing space 
-	//
-	,
-zchar[  /// triple
-    	1
-]
-    trueish 	 //	t
-	, @calculatedFrom( ""a\""b""
-
-    )
-    match //x
-	roots 
-as  f32a 
-{ 4294967296 : 
-i64_ , ""it's""
-
-: a1 ,[ 
-
-    // trailing space 
-  00	,0123456789  ] :
-
-    As , 
-255: Packet  , ""{,}""
-	:  T /// triple
-  0 : falsey },
-body
-
-    @calculatedFrom(""\n""
-        // trailing space 
-  )
-
-,
-@calculatedFrom( 
-""" ++ [128512]%N ++ runes_of_ascii """ )	@tag( 10  )
-	char[
-
-10
-    ]
-trueish 
-`doc` , 
-@tag(
-    255
-
-    )
-	repeat
-
-Z9_	{ 
-asx
-
-    chars
-`// not a comment`
-    ,
-}	,
-	@lengthOf(
-
-Packet
-
-    ) 
-u16  crc
-    ,	}
-    // `tick` ""quote"" 'q'
-options 
-{ BodyLength
-
-=i32
-;
-x  // " ++ [128512]%N ++ runes_of_ascii " emoji
-  = 
-255
-
-    ;
-u= 3 
-}options  {  }packet 
-calculatedFrom{} 
-
-    //x
-	root
-    packet
-
-    Header{ Pad  {  repeatCount
-
-    ,
-	uint16
-	zchar ,  match  msg_type 
-as pack
-	    /// triple
-  {
-    ""abc""	:
-repeatCount ,	""{,}"" :
-    repeatCount 
-""a	b""
-:	calculatedFrom 
-}
-    ,
-
-    repeat  string 
-Logon 
-`a\` ,
-}
-,@lengthOf(
-x_y_z
-
-) match
-    tag
-
-as repeatCount {007	:	BodyLength ,
-
-    [ 
-
-    //	t
-""" ++ [28040; 24687]%N ++ runes_of_ascii """]
-    : 
-BodyLength 42: string_
-    ""// no comment"" 
-      // trailing space 
-	/// triple
-  ://
-  	Z9_
-
-,  4294967296 :
+Eval vm_compute in ("<<<M322>>>" ++ check (runes_of_ascii "
+packet
+metadata {
+i8 BodyLength,
+asx `two words`  ,char[ 0123456789] asx`" ++ [28040; 24687; 31867; 22411]%N ++ runes_of_ascii "`// " ++ [128512]%N ++ runes_of_ascii " emoji
+, @tag(
+42/// triple
+)
+    repeat	charz `crlf
+line` ,
+body ,@tag( 65535  ) match
     // " ++ [128512]%N ++ runes_of_ascii " emoji
-
-_x
-	}	,
-f64  u
-	`it's`,
-
-zchar[
-    00	]
-    f32a
-`doc`
-    , match
-i64_
-
-as Logon
-{ 
-4294967296  // a // b
-    :
-
-    metadata
-	,
-},
-char[ 1
-]
-
-    Pad
-,
-zchar[
-
-    0123456789]
-	float 	 // @lengthOf(
-  	``	, 
-}
-")).
-Eval vm_compute in ("<<<M4202>>>" ++ check (runes_of_ascii "
-packet	float
-	{
-
-    @leftPad(// packet A { u8 x, }
-    	'\x00')
-
-    i64_ {string
-	Z9_
-
-    ,} ,	@tag( //x
-0
+    Pad as x_y_z  { ""{,}"" :
+u , } ,
+    repeat Foo
+    {repeat pack {
+// `tick` ""quote"" 'q'
+// `tick` ""quote"" 'q'
+f32 calculatedFrom
+    @lengthOf( options1
     )
-
-    char[]
-u8x
-	@calculatedFrom(  ""a	b"")
 ,
-@lengthOf( u128
-
-    )
-int8
-
-    u 
-`two words`	,u64
-	Foo`a\` 	 //x
-,
-
-    @leftPad // packet A { u8 x, }
-      (	'0'	)
-	repeat
-	//x
-  // " ++ [128512]%N ++ runes_of_ascii " emoji
-
-	repeatCount //x
-{
-repeat
-Pad {
-
-repeat
-	tag	{ char[00]	//	t
-	  Logon
-    `it's`  ,
-    string_, }
+//x
+// c
+}
+, int32 Header @calculatedFrom(""a	b"")
+, char[]
+zchar
+    `
+`
     ,
-
-match// " ++ [128512]%N ++ runes_of_ascii " emoji
-	As 	 // c
-as matchKey
-    {7
-    :
-
-    lengthOf
-	},
-match
-	u128
-
-    as
-    tag	{ [ 7 ]
-:  // " ++ [128512]%N ++ runes_of_ascii " emoji
-      Packet 
-//	t
-  	, """ ++ [28040; 24687]%N ++ runes_of_ascii """:  Foo ,65535 	 // " ++ [128512]%N ++ runes_of_ascii " emoji
-  	: calculatedFrom 
-    //x
-  	//x
-
-}  /// triple
-
-  ,// a // b
-}
-	,// " ++ [128512]%N ++ runes_of_ascii " emoji
-	f32
-	options1  `doc` 	 // c
-
-  ,  // trailing space 
-  }  , @leftPad(
-'0'
-
-)
-
-match rootA	// packet A { u8 x, }
-	as i64_ 
-{	3  
-      // " ++ [128512]%N ++ runes_of_ascii " emoji
-
-	//
-	: msg_type	,
-
-    ""abc""	:	rootA
-	,
-
-    //	t
-    [
-
-""CRC32""	]	:
-float ,  10 :pack	,
-
-""" ++ [128512]%N ++ runes_of_ascii """
-:tag},
-@rightPad  (
-        // trailing space 
-  	'\x00' )
-char[
-65535  ] _x
-@calculatedFrom(""" ++ [128512]%N ++ runes_of_ascii """ 
-)
-
-    ,
-
-    char[4294967296 
-]
-
-lengthOf @calculatedFrom(
-
-    ""// no comment"" )
-
-    , @leftPad 
-(' ' )
-    zchar[  007  ] 
-options1,  /// triple
-  }
-    packet 
-
-    // " ++ [27880; 37322]%N ++ runes_of_ascii "
-  rootA{
-} packet
-charz
-{ repeat
-
-    As
-
-    ``, 
-}
-    packet
-
-f32a
-	{
-	}
-
-MetaData  roots{
-body	matchKey`// not a comment`,
-}
-")).
-Eval vm_compute in ("<<<M549>>>" ++ check (runes_of_ascii "packet repeatCount
-    { i64 falsey	,char[ 65535
-]
-calculatedFrom  @lengthOf( calculatedFrom
-),int32
-    repeatCount ,  @tag( 4294967296 ) repeat matchKey { repeat
-int64 rootA , match Packet as BodyLength
-    {[ 10]:
-repeatCount
-,""a\\""
-    :	msg_type,  [ ""CRC32"",
-    00
-] : calculatedFrom , 7
-    :
-lengthOf
-, // " ++ [128512]%N ++ runes_of_ascii " emoji
-42 : Header // packet A { u8 x, }
-, [ ""it's"" , ""\n""	,  65535
-, ""`tick`"" ,0 , 65535
-, ""{,}"",255 ]://
-T ,
-} ,} , @calculatedFrom(
-""{,}""
-) match asx
-as metadata
-    {
-3
-: Z9_, ""`tick`""
-:
-    // @lengthOf(
-    string_
-} // `tick` ""quote"" 'q'
-,@rightPad ( '0' ) int8 u128 , @tag( // `tick` ""quote"" 'q'
-3 ) repeat  i8 x_y_z `it's`,
-    @lengthOf(chars )  @calculatedFrom(//
-""" ++ [28040; 24687]%N ++ runes_of_ascii """)string float	, }
-    packet zchar
-    {match uint8x
-    //	t
-    as f32a
-    {[ ""`tick`"" , ""CRC32"" ]
-: repeatCount ,[
-    00
-, ""x y"", 255 , 255 ,
-    1, 7 ,	007 ,
-    7
-]
-    :	tag, ""{,}"": leftPad
-    ,  007 : len , //x
-},
-@calculatedFrom( ""CRC32""  ) @lengthOf(
-x )@calculatedFrom(""\" ++ [233]%N ++ runes_of_ascii """) char[
-65535] string_ , }options { }
-    MetaData u128
+    zchar[00 ]a1 @calculatedFrom(
     // c
-    {
-// c
+    ""{,}"") `crlf
+line` , }
+,
+    body zchar ,i64_ @calculatedFrom( ""a\\""  )
+, // " ++ [27880; 37322]%N ++ runes_of_ascii "
+match
 /// triple
-trueish tag
-// c
-// a // b
-, packetx i8i8 , f64 x_y_z//
-, //x
-trueish u128 , x Header `say ""hi""` , zchar[ 0
-    // `tick` ""quote"" 'q'
-    ] A, } MetaData i64_
-    { }")).
-Eval vm_compute in ("<<<M1183>>>" ++ check (runes_of_ascii "options {
-    trueish
-=// a // b
-'0'
-/// triple
-//
-;} options  { x_y_z
-    =	'0'
-u
-= true;
-    asx
-= ""a	b"" ;
-u128= 4294967296  len
-=
-    true
-    ;	} packet u128 { A  { f32 repeatCount
-@lengthOf(
-    tag) , u32 tag , } ,
-// " ++ [128512]%N ++ runes_of_ascii " emoji
-// " ++ [128512]%N ++ runes_of_ascii " emoji
+// " ++ [27880; 37322]%N ++ runes_of_ascii "
+zchar
+as zchar {	1 : u128
+    ,
+255
+: packetx, [""{,}"" ,""// no comment"",  0 , 65535 ,  3 ] :  u8x, 0123456789:  calculatedFrom // `tick` ""quote"" 'q'
+, 10 : Header	,
+}
+    ,
+}packet string_
+{ @tag( 10 ) T, @calculatedFrom(""CRC32""//	t
+)@lengthOf(charz )@lengthOf(
+zchar) zchar[
+42
+    ] // a // b
+a1 `" ++ [233]%N ++ runes_of_ascii "` , int32 x `two words` //
+, float32 repeatCount ,
+    //
+    @lengthOf(
+    Packet) @rightPad('0'	) // @lengthOf(
+@calculatedFrom(""a\""b"") zchar[ 0 ]	repeatCount @lengthOf(
+BodyLength  ) // trailing space 
+, float,
 repeat
 zchar
-    zchar`u8 x,` , match
-    u as	a1 { [ // " ++ [128512]%N ++ runes_of_ascii " emoji
-""a\""b"" ,""" ++ [28040; 24687]%N ++ runes_of_ascii """]: Z9_ , 10 :int ,	[ ""\n"" , ""CRC32"" , 007
-,
+// trailing space 
+//x
+,} root packet body
+{  @lengthOf(msg_type) repeat
+    u128 {// trailing space 
+char[
 // " ++ [128512]%N ++ runes_of_ascii " emoji
-// " ++ [128512]%N ++ runes_of_ascii " emoji
-""" ++ [28040; 24687]%N ++ runes_of_ascii """ ,
-""packet""
-// " ++ [27880; 37322]%N ++ runes_of_ascii "
-// `tick` ""quote"" 'q'
-, 255 ,
-    //
-    1 ,
-    255 ]  : matchKey
-, }//
-, char[/// triple
-10 ]Z9_ // trailing space 
-@calculatedFrom( """ ++ [128512]%N ++ runes_of_ascii """ )  `" ++ [28040; 24687; 31867; 22411]%N ++ runes_of_ascii "`,
-    }
-packet o{ match i64_
-    as crc
-{ ""CRC32"" : MetaDataX // trailing space 
-, }
-, a1 @lengthOf( Pad ) ,
-packetx @calculatedFrom(
-""" ++ [28040; 24687]%N ++ runes_of_ascii """
-    // " ++ [27880; 37322]%N ++ runes_of_ascii "
-    ) // a // b
-`{ , }`
-,
-a1 { Packet // trailing space 
-@lengthOf( T	) `two words`, metadata
-{ match crc
-as matchKey{
-[""CRC32"" ,
-""// no comment"", ""CRC32"" ,
-    65535 ]
-    :zchar 3: i64_ ,
-} , repeat
-stringy , }, x_y_z Pad// " ++ [128512]%N ++ runes_of_ascii " emoji
-,
-}
-,
-    zchar[	1
-    ] i64_ @calculatedFrom( ""// no comment""
-)
-    , @rightPad ( ' '// packet A { u8 x, }
-)
 //
-// " ++ [128512]%N ++ runes_of_ascii " emoji
-i8 float
-@lengthOf( //x
-tag )	,
-    @tag(  255  )
-    match rootA as
-    A { ""`tick`"" : asx,  } ,}")).
-Eval vm_compute in ("<<<M3743>>>" ++ check (runes_of_ascii "MetaData u
-
-{
-metadata x_y_z
+0123456789 ]options1
 ,
-    i8i8
-
-    len`it's` , zchar[  // " ++ [27880; 37322]%N ++ runes_of_ascii "
-42
-	] options1
-	`{ , }`, }packet u{ 
-@calculatedFrom(""abc""// a // b
-  	) 
-// c
-		// " ++ [27880; 37322]%N ++ runes_of_ascii "
-
-char[ 0123456789 ] 
-string_
-@lengthOf(	Logon
-
-) 
-`a\` ,
-
-    string
-
-string_
-
-    @lengthOf(  // packet A { u8 x, }
-	float
-    )
-
-    ,
-
-char[] // c
-crc`line1
-line2`
-,
-    @lengthOf( 
-/// triple
-
-// `tick` ""quote"" 'q'
-	metadata
-) 
-u128  {
-
-    char[]
-	T,
-} ,
+}	, //	t
 f64
-
-As
-@calculatedFrom(  // a // b
-		""// no comment"")	// " ++ [27880; 37322]%N ++ runes_of_ascii "
-		, repeat
-Z9_ chars `u8 x,`
-, 
-@calculatedFrom(
-    ""packet"" ) repeat 
-// @lengthOf(
-
-a1 tag ,  } 
-packet A {
-@tag( 7 )
-
-    @rightPad ( 
-)@tag( 0123456789
-
-    )
-	repeat	crc
-
-    {
-repeatCount As
-
-// @lengthOf(
-  //	t
-    ,
-}	,
-
-    match  pack  as u { 
-""packet""
-:Pad ,
-""1""  :
-
-u8x
-007
-:
-	Packet  [ ""packet""
-,
-
-    """ ++ [28040; 24687]%N ++ runes_of_ascii """]// " ++ [27880; 37322]%N ++ runes_of_ascii "
-	:
-BodyLength	""1"" : asx 
-,} 
-,match
-    i64_ as	Header {
-4294967296
-:
-
-    _x	007
-
-:
-	packetx
-,
-    [
-007
-	]
-:A, //	t
-  	}
-    ,	uint8 BodyLength,
-
-@lengthOf(
-	    // `tick` ""quote"" 'q'
-// packet A { u8 x, }
-    	i64_  //	t
-
-	)	u8  falsey  //	t
-    ,}
-")).
-Eval vm_compute in ("<<<M125>>>" ++ check (runes_of_ascii "options {
-// a // b
-// trailing space 
-Pad
-    =
-// " ++ [128512]%N ++ runes_of_ascii " emoji
-// " ++ [128512]%N ++ runes_of_ascii " emoji
-false Logon = uint32 ; // " ++ [128512]%N ++ runes_of_ascii " emoji
-x_y_z =
-    1 }
-    MetaData
-// `tick` ""quote"" 'q'
-//	t
-_x
-    {
-    uint32
-stringy ,
-zchar[ 42
-    ] A,
-} packet A {
-    match As as string_/// triple
-{ 0 :
-/// triple
-// `tick` ""quote"" 'q'
-Z9_ ,}
-,  @lengthOf(
-    Z9_ )@lengthOf( x_y_z )As
-    @lengthOf( As )
-`doc` ,
-u64 calculatedFrom	@calculatedFrom(
-""abc"")
-`// not a comment` , // c
-Packet //	t
-string_ ,
-    // trailing space 
-    @lengthOf(  Z9_
-    ) Z9_ @lengthOf( body)// trailing space 
-,
-calculatedFrom
-BodyLength , @lengthOf( msg_type
-)repeat
-char tag `it's` ,
-}
-    packet zchar { @leftPad (
-//x
-//
-)
-    repeat zchar[ 3 ]Z9_
-, } // `tick` ""quote"" 'q'
-packet chars { @lengthOf( Z9_ ) repeat string crc , string MetaDataX ,@calculatedFrom( """"
-    )
-x
-    ,
-u8x//
-, @tag(10 ) match
-    falsey as	tag {""CRC32""	: x
-    , /// triple
-} //	t
-,
-x_y_z`tab	here`
-,
-@rightPad(
-'0'
-)int16
-Logon
-    ,trueish
-, @rightPad
-( )
-_x @calculatedFrom(
-""packet""// c
-), } // @lengthOf(")).
-Eval vm_compute in ("<<<M732>>>" ++ check (runes_of_ascii "// " ++ [27880; 37322]%N ++ runes_of_ascii "
-options  { i8i8
-    //	t
-    = 007 ; Logon =	3
-; }	packet u128 {BodyLength{ char[ //x
-7
-] int, u16 _x@lengthOf( // packet A { u8 x, }
-u)	, i8 rootA
-    `tab	here`
-,
-    stringy MetaDataX`u8 x,` , } , @tag(007 ) f32a @calculatedFrom( """ ++ [28040; 24687]%N ++ runes_of_ascii """ )
-    `it's`
-,
-// c
-// a // b
-@calculatedFrom( ""x y""
-    )char[007 ] string_ //x
+    u128`it's`	,// @lengthOf(
+repeat  i64 charz ,
 @calculatedFrom( """ ++ [128512]%N ++ runes_of_ascii """ )
-    , // c
-@calculatedFrom( ""// no comment""
-) @calculatedFrom( ""a	b"" )  f64
-As , // `tick` ""quote"" 'q'
-zchar[7]x `
-` ,
-    /// triple
-    u16
-o, repeat float32 roots `{ , }`
-    ,
-@leftPad (
-)// c
+    repeat char
+    roots, } packet
+metadata // @lengthOf(
+{ // trailing space 
+@lengthOf( // packet A { u8 x, }
+BodyLength ) @tag( 4294967296  ) f32a
+A
+, } MetaData u128 { } //")).
+Eval vm_compute in ("<<<M360>>>" ++ check (runes_of_ascii "root packet falsey { @lengthOf(Pad	)repeatCount
+    @calculatedFrom( ""1"")
+    ,@calculatedFrom( """"
+)
+@lengthOf(
+stringy ) A
+leftPad , @calculatedFrom(""{,}""
+    ) // " ++ [128512]%N ++ runes_of_ascii " emoji
+f32 calculatedFrom `{ , }` , char[007
+    ] a1,
+repeat char[ 007 ] repeatCount`it's`
+, char[] pack `line1
+line2`, } packet // " ++ [128512]%N ++ runes_of_ascii " emoji
+trueish{ repeat zchar[10 ]options1 `a\`
+,  roots@calculatedFrom(
+""" ++ [128512]%N ++ runes_of_ascii """	) `{ , }`
+,  @calculatedFrom(	""a\""b""	)
+_x _x `
+` , //x
+i8 pack
+    , @lengthOf(  string_ )
+match charz
+as
 repeatCount
-{ float64
-u8x `a\`
-// @lengthOf(
-// " ++ [27880; 37322]%N ++ runes_of_ascii "
-,rootA@lengthOf( //	t
-chars ) ,
-    match u128  as
-roots{
-// a // b
-//
-[
-""" ++ [128512]%N ++ runes_of_ascii """ ] : msg_type// c
-, ""\n"" :
-    u8x
-00 :
-crc
-    //x
-    } , },
-//x
-/// triple
-u16 lengthOf @calculatedFrom( // c
-""" ++ [233]%N ++ runes_of_ascii "t" ++ [233]%N ++ runes_of_ascii """  ),	}MetaData
-repeatCount{ zchar[ 0123456789
-] Logon , char[ 42	]  int	,}
-    options {}
-options // " ++ [128512]%N ++ runes_of_ascii " emoji
-{
-repeatCount = ""1""
-Z9_ = 255  string_ = ' '
-;  trueish = 3 ; crc =
-""packet""
-    ;}
-")).
-Eval vm_compute in ("<<<M573>>>" ++ check (runes_of_ascii "packet metadata{zchar[ 255] rootA@lengthOf( //	t
-stringy ) `` , Z9_
-@calculatedFrom(""\n"" ) ,i64_ , @calculatedFrom( ""abc"" )body `crlf
-line`
-    , // packet A { u8 x, }
-match metadata as
-leftPad { ""\n""
-    : stringy , ""it's"":
-rootA , [
-""packet"", 10 ]: lengthOf , 1  : zchar ,
-} , @tag( 3 )//x
-char[] x_y_z `u8 x,` , f64
-    o @lengthOf(o ) ,
-@calculatedFrom( // c
-""" ++ [28040; 24687]%N ++ runes_of_ascii """	)zchar[  007]
-options1 @lengthOf(  msg_type )
-,
-} MetaData T  { int16 u8x,char[
-    1 ]
-    repeatCount ,  uint16 i64_
-`u8 x,` ,
-    Header
-    x	`` // " ++ [128512]%N ++ runes_of_ascii " emoji
-, stringy
-msg_type
-`" ++ [28040; 24687; 31867; 22411]%N ++ runes_of_ascii "` ,	} packet
-i8i8
-{
-} packet
-Header {
-repeat Z9_ roots ,
-    }  packet calculatedFrom { T	@lengthOf( Foo )`u8 x,`
+{[
+0123456789 ]
+    : x// a // b
+,255:
+    Foo, [ 0123456789 , ""1"" ] : f32a """" :
     // " ++ [128512]%N ++ runes_of_ascii " emoji
-    , match tag as
-//	t
-// a // b
-charz { ""\" ++ [233]%N ++ runes_of_ascii """: string_ , [
-1,""" ++ [28040; 24687]%N ++ runes_of_ascii """
-,/// triple
-""CRC32""]: falsey , [ 007] :float	, 3 : MetaDataX ,
-[ ""`tick`""] :
-u , 1
-// trailing space 
-// packet A { u8 x, }
-: metadata ,}// `tick` ""quote"" 'q'
-,
-}
-")).
-Eval vm_compute in ("<<<M942>>>" ++ check (runes_of_ascii "//
-packet
-// " ++ [128512]%N ++ runes_of_ascii " emoji
-//	t
-falsey{ x_y_z @calculatedFrom( ""CRC32"" ) `{ , }` , repeat int8
-i64_ , char[]f32a
-    ,@lengthOf(calculatedFrom ) repeat string f32a `{ , }` , match pack as u128 { [ 10
-//	t
-// trailing space 
-, 7 ] : calculatedFrom ,
-""" ++ [128512]%N ++ runes_of_ascii """ : options1
-    // c
-    , 1 : calculatedFrom , ""\" ++ [233]%N ++ runes_of_ascii """
-    :body
-    ,
-}, @leftPad(' ' ) o packetx ``
-,  @calculatedFrom( ""{,}""
-    ) char[ 7  ] u , repeat u	_x , Z9_
-    , @leftPad
-(  ' ' ) string asx ,} packet
-zchar { zchar[1 ] As `two words`
-, zchar[
-    7
-] charz @calculatedFrom(""" ++ [128512]%N ++ runes_of_ascii """ ) , // c
-@tag( 4294967296
-)  char[]
-uint8x @calculatedFrom(
-    ""`tick`""
-)//x
-, repeat char
-    metadata, zchar[ 65535 /// triple
-] metadata , stringy i64_ ,
-    @leftPad	('\x00' ) string_ @lengthOf( //
-options1 ) ,@tag(// packet A { u8 x, }
-65535)  float64 Foo @calculatedFrom(  ""abc""
-    ) `{ , }` , }options {
-// packet A { u8 x, }
-//	t
-}
-")).
-Eval vm_compute in ("<<<M3741>>>" ++ check (runes_of_ascii "packet u128 {
-    @tag(0)
-    BodyLength {
-        Z9_ {
-            stringy {
-                metadata,
-            },
-            zchar @lengthOf(x_y_z),
-            match lengthOf as float {
-                10 : repeatCount,
-            },
-            repeat string Pad `" ++ [233]%N ++ runes_of_ascii "`,
-        },// packet A { u8 x, }
-        u64 u128 @calculatedFrom(""a\""b""),
-    },
-    @rightPad('0')
-    uint32 x_y_z @lengthOf(crc),
-    match tag as roots {
-        4294967296 : packetx,
-        007 : Packet,
-        // packet A { u8 x, }
-        [7, 255, """ ++ [128512]%N ++ runes_of_ascii """, ""a	b""] : x_y_z,
-        3 : u128,
-        ""a	b"" : u128,
-    },
-    Foo @lengthOf(o),
-    i32 int,
-    options1,
-    @rightPad()
-    @rightPad('\x00')
-    x `crlf
-        line`,
-    @tag(255)
-    int16 u8x @lengthOf(trueish) `" ++ [28040; 24687; 31867; 22411]%N ++ runes_of_ascii "`,
-    f64 leftPad @calculatedFrom(""CRC32"") `doc`,
-}")).
-Eval vm_compute in ("<<<M1151>>>" ++ check (runes_of_ascii "
-packet
-    int{ repeat  o
-    `say ""hi""` ,
-    // " ++ [128512]%N ++ runes_of_ascii " emoji
-    @leftPad ( '\x00' )T
-    `// not a comment`,
-@tag(
-    007 // trailing space 
-) repeat uint8x { zchar[	7 ] a1 ,char[] msg_type @lengthOf( calculatedFrom
-)
-`two words`
-,
-string_	A // packet A { u8 x, }
-,
-// " ++ [128512]%N ++ runes_of_ascii " emoji
-// " ++ [27880; 37322]%N ++ runes_of_ascii "
-} , repeat// " ++ [27880; 37322]%N ++ runes_of_ascii "
-char falsey
-, repeat /// triple
-zchar[
-    0123456789 ] repeatCount ,match trueish as As{
-[// " ++ [128512]%N ++ runes_of_ascii " emoji
-""a\\"", """ ++ [233]%N ++ runes_of_ascii "t" ++ [233]%N ++ runes_of_ascii """
-    ,  """ ++ [28040; 24687]%N ++ runes_of_ascii """ ,
-    // trailing space 
-    7 , """ ++ [233]%N ++ runes_of_ascii "t" ++ [233]%N ++ runes_of_ascii """, """ ++ [28040; 24687]%N ++ runes_of_ascii """ ] :
-    int ,0123456789 :
-A ,
-[00 , """ ++ [128512]%N ++ runes_of_ascii """
-    ] :  Header
-, // packet A { u8 x, }
-""a\\"" : u, } , } packet
-// c
-// @lengthOf(
-body
-    {
-    float32 Header `doc` ,roots // `tick` ""quote"" 'q'
-@calculatedFrom( """" )
-,
-int32 metadata ,// `tick` ""quote"" 'q'
-}
-options
-    { repeatCount =
-    ""abc"" ; } 	 ")).
-Eval vm_compute in ("<<<M3660>>>" ++ check (runes_of_ascii "// top
-options // c0
-{ // c1a
-  // c1b
-LittleEndian // c2
-= // c3a
-  // c3b
-true // c4a
-  // c4b
-; // c5
-} // c6
-packet // c7a
-  // c7b
-Sub { // c9a
-  // c9b
-u8 // c10a
-  // c10b
-a // c11
-,
-    // c12
-@calculatedFrom( // c13a
-  // c13b
-""CRC16"" // c14
-) u64
-    // c16
-SubSum // c17a
-  // c17b
-, // c18a
-  // c18b
-}
-    // c19
-root
-    // c20
-packet // c21a
-  // c21b
-Frame // c22
-{ // c23
-u16 MsgType ,
-    // c26
-u16
-    // c27
-BodyLen
-    // c28
-@lengthOf( // c29a
-  // c29b
-Body
-    // c30
-) // c31
-, // c32
-Sub // c33
-Body
-    // c34
-, // c35a
-  // c35b
-string // c36
-note // c37a
-  // c37b
-,
-    // c38
-@calculatedFrom( ""CRC16""
-    // c40
-) u64 // c42a
-  // c42b
-Checksum
-    // c43
-,
-    // c44
-u8
-    // c45
-tail // c46
-, // c47
-} ")).
-Eval vm_compute in ("<<<M4084>>>" ++ check (runes_of_ascii "  root
-
-packet
-    o {
-	a1 a1
-,char[ 3
-
-    ]i8i8 `
-`,
-
-    @calculatedFrom(	""a\""b""  )	// packet A { u8 x, }
-
-	repeat	/// triple
-	  Pad
-    ,} 
-  // `tick` ""quote"" 'q'
-  // `tick` ""quote"" 'q'
-		packet tag
-{
-	i8i8 @calculatedFrom( ""x y""
-)
-
-    `it's`, @lengthOf(
-x_y_z
-)
-    @calculatedFrom( 
-
-    //
-
-//	t
-		""a\""b""	)
-u
-    { match a1
-
-    as
-    Logon {  ""\n"" :Pad
-
-,  3
-
-    :	body
-,
-	"""" : // `tick` ""quote"" 'q'
-	Logon ,
-    ""\n""
-
-    : T
-	,
-
-""`tick`""	:  tag	,
-[ """ ++ [233]%N ++ runes_of_ascii "t" ++ [233]%N ++ runes_of_ascii """	/// triple
-  	,	7,
-	""a\""b""	,	0123456789 ,""abc"" ,
-	""" ++ [28040; 24687]%N ++ runes_of_ascii """ ,
-
-    0
-    ] :
-    Z9_ 
-}
-	, char[
-00 ]	//
-  	string_  @lengthOf(asx  )
-
-, 
-char[1 ] falsey  ,  } ,match crc as lengthOf
-{
-    4294967296
-:
-a1 
-}
-, }
-")).
-Eval vm_compute in ("<<<M1370>>>" ++ check (runes_of_ascii "packet
-    //	t
-    As { @tag( 10 )@lengthOf(
-    chars ) zchar {
-//x
-// `tick` ""quote"" 'q'
-metadata { Header`it's`, match
-body
-as i64_ // trailing space 
-{ ""// no comment""
-    :
-    packetx ,} /// triple
-, match
-repeatCount	as asx{255
-    :
-    Foo ,	3 :	int , ""1"" :
-chars , }
-, uint32 repeatCount@lengthOf(
-    // c
-    BodyLength )
-    ``
-    , } ,roots , repeat	rootA `` ,
-char MetaDataX@lengthOf( crc
-) , } ,
-    // a // b
-    _x {
-    match As	as Foo// @lengthOf(
-{ 1 :
-    // " ++ [27880; 37322]%N ++ runes_of_ascii "
-    stringy
-//x
-//	t
-,}
-, }
-    ,
-    u8	Foo ,  @calculatedFrom( """")
-    BodyLength	, char[
-    007
-    ]
-Z9_@calculatedFrom(
-""CRC32"" ) , lengthOf , i32 //x
-f32a `{ , }` ,
-}")).
-Eval vm_compute in ("<<<M375>>>" ++ check (runes_of_ascii "packet zchar
-{BodyLength x // `tick` ""quote"" 'q'
-, // trailing space 
-@rightPad ('0' )
-match _x as x { [
-    """ ++ [128512]%N ++ runes_of_ascii """ ] : falsey  , 65535
-:  chars 0 : falsey , [ ""packet""
-    ] :// c
-metadata	0 : repeatCount,00//
-:  packetx ,
-} , } packet crc  { match body
-//x
-//x
-as len {
-7:
-    leftPad
-,007 : x_y_z , 00
-:
-    x_y_z, [ 0, 10 ,
-10 , //	t
-10	] :	calculatedFrom // packet A { u8 x, }
-, ""packet"" : calculatedFrom } , @leftPad ( '0' ) @tag(
-4294967296
-    ) match u128 // c
-as trueish
-{	3
-: i64_
-    ,
-    }, char[255
-]o @lengthOf(leftPad
-    )
-`u8 x,` , } MetaData o {float
-roots ,
-    x_y_z MetaDataX , packetx zchar
-    , }")).
-Eval vm_compute in ("<<<M209>>>" ++ check (runes_of_ascii "packet _x
-    {repeat
-u8x {
-    repeat pack
-    body,
-    } ,
-@calculatedFrom( ""x y"" ) A { match msg_type as f32a {4294967296
-    : crc 1
-// c
-/// triple
-: uint8x , // a // b
-[ 255, 0
-    ] : // " ++ [27880; 37322]%N ++ runes_of_ascii "
-pack , [7 ,
-// `tick` ""quote"" 'q'
-// packet A { u8 x, }
-00 ] :	roots , [ 255
-    ]
-:	rootA
-    , } ,
-    char packetx
-@calculatedFrom( ""{,}""
-    // trailing space 
-    )
-, } ,
-    match
-    BodyLength //
-as u8x {""a	b"" : u,
-    00 // @lengthOf(
-: msg_type,// " ++ [27880; 37322]%N ++ runes_of_ascii "
-}, match metadata as As{[ 0123456789, 3 ,// a // b
-0
-, ""it's""
-, ""it's"" , ""1"" ] :
-int
-,
-    ""packet"": leftPad}, char[] Pad `say ""hi""` , }
-
-")).
-Eval vm_compute in ("<<<M400>>>" ++ check (runes_of_ascii "packet crc {
-// packet A { u8 x, }
-// trailing space 
-Logon ,
-    } options { msg_type = '\x00'
-;
-    }
-    packet falsey {
-char[
-0123456789
-] calculatedFrom@calculatedFrom( ""packet""//
-)`say ""hi""`, match As as o { 65535// packet A { u8 x, }
-: A , """" : _x , ""`tick`"" :zchar,
-0123456789 :calculatedFrom , } ,
-    @tag( 00 )  As {
-char[] calculatedFrom ,
-} , float32 zchar
-, char[ 255 ] lengthOf,
-    @lengthOf(chars
-    // " ++ [27880; 37322]%N ++ runes_of_ascii "
-    )
-@lengthOf( // c
-a1 ) body  @calculatedFrom(""// no comment"" )
-`crlf
-line`	,} root  packet
-    _x
-{ @calculatedFrom(
-    ""a\\""
-) repeat
-i32	o ,}")).
-Eval vm_compute in ("<<<M364>>>" ++ check (runes_of_ascii "
-packet chars  { repeat
-    u64 As`" ++ [233]%N ++ runes_of_ascii "` ,@tag( 0 )repeat
-T metadata
-    ``	,
-    }packet Z9_{
-    @rightPad
-    (//
-'0'
-    // " ++ [128512]%N ++ runes_of_ascii " emoji
-    )
-    match u as
-lengthOf
-    {
-""abc""/// triple
-: T
-, ""CRC32"" //x
-:  matchKey
-[ """ ++ [233]%N ++ runes_of_ascii "t" ++ [233]%N ++ runes_of_ascii """ ,  """ ++ [28040; 24687]%N ++ runes_of_ascii """, 65535, 65535 , ""x y""
-    ]
-: metadata""it's"" : i8i8, // packet A { u8 x, }
-255 : trueish , """":u128 ,	} , } MetaData u8x {
-zchar[ 255
-]  zchar ,
-    // `tick` ""quote"" 'q'
-    uint32 uint8x
-`" ++ [233]%N ++ runes_of_ascii "`, uint8 trueish ,
-    // packet A { u8 x, }
-    i64	falsey
-,
-_x MetaDataX ,string
-_x
-// trailing space 
-//
-, } //	t")).
-Eval vm_compute in ("<<<M1150>>>" ++ check (runes_of_ascii "
-packet
-    // " ++ [27880; 37322]%N ++ runes_of_ascii "
-    chars {u8x metadata	`u8 x,` , @lengthOf( o
-) leftPad /// triple
-@lengthOf( leftPad)
-    `line1
-line2` , match  falsey as o //x
-{[ ""\" ++ [233]%N ++ runes_of_ascii """
-    ,""a\\"",00]: falsey,0 : u	""a\""b"" :	roots , """ ++ [128512]%N ++ runes_of_ascii """ :
-Foo, [
-    """ ++ [233]%N ++ runes_of_ascii "t" ++ [233]%N ++ runes_of_ascii """ , ""a\""b""//x
-, 7  ]	: // a // b
-string_
-    // a // b
-    ""a\\"" :
-    string_	,
-    },@calculatedFrom( ""a	b"" ) repeat body  `a\` , }options {stringy = 0 }packet
-    // a // b
-    chars {
-charz@calculatedFrom( ""a	b"" ) ,uint32 lengthOf, int8
-    repeatCount ,
-uint16 // @lengthOf(
-o`
-` ,
-    }")).
-Eval vm_compute in ("<<<M3776>>>" ++ check (runes_of_ascii "options { 
-
-//	t
-o
-= float64 
-; rootA
-	=
-""a	b""  tag =
-    // a // b
-    true;	BodyLength = 	 //	t
-      ""\" ++ [233]%N ++ runes_of_ascii """ ;
-
-    }
-
-    packet  leftPad{
-
-u8x 
-    //	t
-
-  roots
-    `{ , }`// " ++ [27880; 37322]%N ++ runes_of_ascii "
-	,@calculatedFrom(
-
-    ""// no comment""	)  i64_ 
-a1
-
-    , 
-
-// packet A { u8 x, }
-
-	/// triple
-    f64
-
-tag 
-,
-	} MetaData charz  {	string
-    msg_type,  roots
-x_y_z ,Z9_ chars `tab	here` 
-, 
-packetx 
-u128
-	`// not a comment`,  // c
-pack  a1	, }
-
-    packet
-    falsey
-
-    {uint32 Foo
-,
-	}
-")).
-Eval vm_compute in ("<<<M1039>>>" ++ check (runes_of_ascii "MetaData MetaDataX{i64_ leftPad , zchar[7 ] u8x`" ++ [28040; 24687; 31867; 22411]%N ++ runes_of_ascii "` , zchar[// `tick` ""quote"" 'q'
-00 ] crc  `crlf
-line` , char[
-    255 ]
-    zchar
-, u32 x//
-`tab	here`
-, i64_ falsey `it's` ,} MetaData A
-/// triple
-//	t
-{ char[ 7 ] // `tick` ""quote"" 'q'
-calculatedFrom /// triple
-`two words` , asx asx `tab	here`, float64 trueish,zchar[ 42 ] f32a `tab	here` // " ++ [128512]%N ++ runes_of_ascii " emoji
-, char[]
-    u128 ,
-    } packet uint8x { @tag(  1
-//
-// @lengthOf(
-) repeat
-    //	t
-    char[]
-Packet, } // c")).
-Eval vm_compute in ("<<<M1192>>>" ++ check (runes_of_ascii "packet
-    x_y_z { i64 A @lengthOf( u128 ) `a\` ,
-int8
-    pack `u8 x,` ,	@calculatedFrom( """ ++ [233]%N ++ runes_of_ascii "t" ++ [233]%N ++ runes_of_ascii """ )Foo repeatCount ,//
-@calculatedFrom(	""" ++ [28040; 24687]%N ++ runes_of_ascii """
-) uint8 tag
-    // " ++ [27880; 37322]%N ++ runes_of_ascii "
-    , u32
-crc@calculatedFrom( ""a\\"" // packet A { u8 x, }
-)
-, // c
-@calculatedFrom( ""a	b"" ) string u8x
-`// not a comment`
-,
-@tag( 255  )
-    @calculatedFrom(
-""" ++ [128512]%N ++ runes_of_ascii """
-    // `tick` ""quote"" 'q'
-    )char[
-    65535
-    ] lengthOf
-    `{ , }`, u16
-    charz, } MetaData body {Logon Pad
-, } 	 ")).
-Eval vm_compute in ("<<<M1088>>>" ++ check (runes_of_ascii "options { int// a // b
-=7 ;float = int64;
-/// triple
-// a // b
-stringy= 3 rootA
-    // packet A { u8 x, }
-    =""CRC32"" x = // c
-true // " ++ [128512]%N ++ runes_of_ascii " emoji
-} options{ A=uint16
-    // @lengthOf(
-    ; metadata = ""1""
-// trailing space 
-// `tick` ""quote"" 'q'
-packetx=10// " ++ [128512]%N ++ runes_of_ascii " emoji
-} MetaData Packet { T int	`u8 x,` , o _x
-    ,
-falsey chars ,
-} root packet string_
-{ packetx Pad`a\`
-    , trueish x_y_z ,body , repeat char[ 3]  options1 `it's` , }")).
-Eval vm_compute in ("<<<M4226>>>" ++ check (runes_of_ascii "
-
-  packet 
-Packet{ @tag( 4294967296
-	) charz	{ 
-repeat  char[ 0123456789
-]  BodyLength
-
-,
-repeat  trueish
-
-    stringy ,
-}
-    ,
-    }
-    options{
-
-    body
-=
-	char 
-; 
-leftPad =uint16
-	    //	t
-;
-stringy 
-=
-true
-
-; packetx 
-=
-    true
-
-    // `tick` ""quote"" 'q'
-//
-  float =
-char[
-255
-    ]
-    } 
-	// `tick` ""quote"" 'q'
-		/// triple
-  	root 
-packet
     len
+,	[0 ,
+0123456789 ,""a\\"" ,65535]
+    : int ,[""packet"" , ""1"" ,65535 ,  ""a\""b""
+    ,	4294967296
+, ""x y""
+    , ""// no comment"" ]
+: calculatedFrom , // trailing space 
+},
+@calculatedFrom( // " ++ [27880; 37322]%N ++ runes_of_ascii "
+""" ++ [28040; 24687]%N ++ runes_of_ascii """
+)Pad int  `tab	here`,
+} packet // c
+As
 {
-	@leftPad
-(
-
-'0'
-)uint64 a1,
-    }
-
-")).
-Eval vm_compute in ("<<<M1225>>>" ++ check (runes_of_ascii "options {
-options1 =
-    4294967296 ;
-    }
-    root packet crc
-// trailing space 
-// " ++ [27880; 37322]%N ++ runes_of_ascii "
-{@calculatedFrom(
-//
-// `tick` ""quote"" 'q'
-""a\""b"")
-    zchar[
-255
-] u8x
-    // a // b
-    @lengthOf( //
-u8x
-) `u8 x,`// " ++ [128512]%N ++ runes_of_ascii " emoji
-,
-repeat int16
-    x_y_z ,  calculatedFrom@lengthOf(
-    x_y_z )
-    ,
-    //
-    @rightPad ( ' ' ) repeat char[] calculatedFrom ,
-    repeat
-Foo rootA
-`// not a comment` , }
-")).
-Eval vm_compute in ("<<<M484>>>" ++ check (runes_of_ascii "packet packetx { // packet A { u8 x, }
-@rightPad
-(' ') match x_y_z as options1 {[42
-    ] : f32a , ""`tick`"" :
-    trueish , [ 65535 ,""" ++ [233]%N ++ runes_of_ascii "t" ++ [233]%N ++ runes_of_ascii """
-] :crc, """ ++ [128512]%N ++ runes_of_ascii """ :
-lengthOf ""a	b""  :  Header , 255 : x_y_z
-// @lengthOf(
-// @lengthOf(
-,
-    }
-    ,	} packet zchar
-    // trailing space 
-    { Header
-    // " ++ [128512]%N ++ runes_of_ascii " emoji
-    @calculatedFrom(
-    ""CRC32"") , @leftPad( )repeatCount charz	, }
-//
-")).
-Eval vm_compute in ("<<<M113>>>" ++ check (runes_of_ascii "packet body { Pad {a1`crlf
-line`
-    , zchar[ 007] a1 ,char[10 ] x_y_z  ,
-repeat
-zchar[ 1  ] metadata `u8 x,` , } , string  trueish
-,repeat uint8x u ,	@tag( /// triple
-007 ) calculatedFrom
-{repeat BodyLength
-`doc` ,
-    }/// triple
-, int64 lengthOf,/// triple
-@lengthOf(
-leftPad) @calculatedFrom( ""x y"" ) @calculatedFrom( // " ++ [27880; 37322]%N ++ runes_of_ascii "
-""\" ++ [233]%N ++ runes_of_ascii """ )  falsey a1 , }")).
-Eval vm_compute in ("<<<M3552>>>" ++ check (runes_of_ascii "// top
-packet // c0
-B // c1a
-  // c1b
-{ // c2
-u8
-    // c3
-a , // c5a
-  // c5b
-string s // c7
-,
-    // c8
-} // c9a
-  // c9b
-root // c10
+    options1
+,  @lengthOf( int // a // b
+)int8
+options1 @lengthOf( u8x)
+`crlf
+line`, } packet falsey { @rightPad ( ) char[ 3] o
+    , }root
 packet
-    // c11
-P
-    // c12
-{ // c13a
-  // c13b
-u16 // c14a
-  // c14b
-L // c15
-@lengthOf(
-    // c16
-B ) // c18
-,
-    // c19
-B
-    // c20
-, // c21
-u8
-    // c22
-t // c23a
-  // c23b
-, } // c25a
-  // c25b
-")).
-Eval vm_compute in ("<<<M921>>>" ++ check (runes_of_ascii "options//x
-{ } // @lengthOf(
-root packet trueish {f32
-Logon @calculatedFrom( ""`tick`"" ) `
-` ,zchar[  0123456789 ]As @calculatedFrom( ""a	b"" ) ,
-chars
-    , char[] u128@lengthOf(
-a1)
-    `
-`// a // b
-,
-    @tag( 255 )
-repeat asx
+    // @lengthOf(
+    _x {@tag( 42
+) trueish
+    @calculatedFrom(
+""" ++ [128512]%N ++ runes_of_ascii """ )
+`
+` , f32a `crlf
+line` , match
+rootA as stringy  { // trailing space 
+[ ""packet""
     ,
-} MetaData
-    lengthOf //
-{_x tag , float32 zchar , } options {As	= i64 ;} MetaData len {}
-")).
-Eval vm_compute in ("<<<M3804>>>" ++ check (runes_of_ascii "
+//
+// " ++ [27880; 37322]%N ++ runes_of_ascii "
+"""" ]:
+    uint8x ,  ""\" ++ [233]%N ++ runes_of_ascii """
+: uint8x , [""\n"" ,1 ]
+    : zchar // packet A { u8 x, }
+, 255:
+// `tick` ""quote"" 'q'
+//
+int ,[ ""packet""]: roots }
+, repeat u16 // c
+x_y_z// a // b
+`// not a comment` , }")).
+Eval vm_compute in ("<<<M4100>>>" ++ check (runes_of_ascii "
+root packet roots	{
+	repeat
+rootA
+	`{ , }` ,
 
-  packet
-uint8x
+BodyLength , @lengthOf( 
+int)  u64  pack
+
+`// not a comment`
+
+,  chars@lengthOf(
+    crc)  // packet A { u8 x, }
+    , 
+	// @lengthOf(
+  // `tick` ""quote"" 'q'
+	  tag
+
+    `u8 x,`
+
+    ,match x_y_z  as  chars 
+{	// " ++ [128512]%N ++ runes_of_ascii " emoji
+
+[
+    65535
+,
+    ""x y""	// a // b
+  	, 10
+	,
+	4294967296 ]
+:	//x
+  repeatCount ,[	255 ] // @lengthOf(
+: i8i8 
+, 4294967296 :
+metadata 
+,
+[	10 ,
+""""
+	,255
+
+,
+
+0 , ""abc"" ,	10]
+: 
+rootA
+// @lengthOf(
+
+	,
+[ ""1""  ,""1""
+	]
+
+: 
+uint8x ,
+	[""""  , 
+10 
+	// trailing space 
+
+  ]
+: 
+options1,	},
+}
+packet trueish { uint16 i64_
+,
+
+    }
+packet	zchar	{Logon
+{
+	// " ++ [27880; 37322]%N ++ runes_of_ascii "
+
+	// @lengthOf(
+	match	pack as 
+asx 
+{
+	[
+
+    1,  // `tick` ""quote"" 'q'
+10]
+
+: Logon ,[
+
+    7] :
+
+pack, [42 
+,	""// no comment"" ,7 , 00 ,
+
+65535  ]:	x , //
+	  ""1"":	uint8x ,  """"  :  A  65535
+	:
+    u8x
+    }
+
+    ,
+
+    } ,
+x 
+`u8 x,`, @tag(	65535)
+
+string
+    stringy`say ""hi""`
+	,
+	repeat uint16 leftPad `
+`
+    ,
+
+match
+options1	as
+    Foo { ""abc"" :
+falsey
+    ,
+3 : T , }
+
+    , zchar[ 
+4294967296
+]charz
+@lengthOf( As
+
+    ),
+i64
+    Packet ,
+	@lengthOf( MetaDataX ) @lengthOf(metadata )@calculatedFrom(
+""" ++ [128512]%N ++ runes_of_ascii """ )  uint8
+
+T@calculatedFrom(""" ++ [128512]%N ++ runes_of_ascii """
+)`" ++ [233]%N ++ runes_of_ascii "` ,
+	} // `tick` ""quote"" 'q'")).
+Eval vm_compute in ("<<<M4181>>>" ++ check (runes_of_ascii "options
+{
+Packet 
+=  ""packet""
+    len=
+
+    ""packet"" ;charz
+
+= 
+true 
+}	packet
+	calculatedFrom// c
+	{
+//	t
+    	// a // b
+
+	repeat// " ++ [27880; 37322]%N ++ runes_of_ascii "
+
+	Packet
+,
+    uint8x @calculatedFrom(
+// @lengthOf(
+
+	// `tick` ""quote"" 'q'
+    	""\n"" )
+    ,@calculatedFrom(""// no comment"" )
+    @rightPad	/// triple
+  (' '
+    )match
+    x 
+	//x
+  //	t
+    as
+
+Packet	{ 
+00
+: Pad	[
+	0]  :  // @lengthOf(
+
+  As,
+
+    } 
+,
+
+@lengthOf( chars )a1  `it's`
+
+    , match Logon
+
+as  int
+	{
+""packet""
+:	int
+
+[  """ ++ [28040; 24687]%N ++ runes_of_ascii """
+
+,
+
+0123456789	// trailing space 
+
+,
+
+""x y""
+, 65535
+    //	t
+	]	:
+
+    lengthOf
+	,
+10 : asx , 
+[
+
+""// no comment""	] :
+	zchar 
+, ""// no comment""
+
+    :a1  
+      //
+    // `tick` ""quote"" 'q'
+    , 
+0
+
+: len	,} 	 // " ++ [27880; 37322]%N ++ runes_of_ascii "
+    , 
+match
+u8x as MetaDataX{
+
+    [ 255
+]: string_ // packet A { u8 x, }
+,
+	[
+""// no comment"" ,
+""CRC32"" 
+] :metadata
+
+    ,// packet A { u8 x, }
+		""a\""b""
+	:
+// " ++ [27880; 37322]%N ++ runes_of_ascii "
+  leftPad
+}
+,
+
+Header	`tab	here`
+
+    ,  }  packet u128	{ 
+char[
+    10 	 //x
+
+] trueish `tab	here` ,
+repeat asx{ match len
+    as
+	chars	{
+1
+
+    :
+MetaDataX
+,
+42
+	:roots ,
+	10
+    :BodyLength,	""// no comment""	:
+o
+, ""a\\""
+	:  i64_ ,
+}
+,  }	, 
+}
+")).
+Eval vm_compute in ("<<<M3914>>>" ++ check (runes_of_ascii "
+
+  root packet
+
+body
 	{
 
-@leftPad (	'\x00'
+@tag(	4294967296  )
+As 
+@calculatedFrom(
+    """ ++ [128512]%N ++ runes_of_ascii """) 
+`a\` 
+,	/// triple
+      } root
 
-) float32  x_y_z @lengthOf(
-    x
+packet  uint8x {	MetaDataX  {repeat
+    matchKey
+lengthOf , repeat
+u32
+uint8x 
+      // packet A { u8 x, }
+    // a // b
+	`doc` 
 
-)`a\` ,	int32 Header ,
+    /// triple
 
-match asx
-	as
-	string_ 
-{
+  ,
+	}
+, }
+	options{	int// a // b
 
-""""
+  =	""abc""	} 
+packet
+// trailing space 
+    u8x
+	{  }root  packet	// " ++ [128512]%N ++ runes_of_ascii " emoji
+	falsey
 
-    :
-lengthOf
+    {
+repeat float32
+u
+
+,  repeat char[] 
+	// " ++ [128512]%N ++ runes_of_ascii " emoji
+  // packet A { u8 x, }
+msg_type
+
+    `
+` ,  @leftPad
+
+(' ' 
+)@tag(
+255
+)
+match  Header 
+as
+	msg_type
+
+    {	3 :
+
+    uint8x
+	,
+
+    255: x
+,	// trailing space 
+	7 	 // " ++ [27880; 37322]%N ++ runes_of_ascii "
+
+: leftPad  
+  // c
+	// `tick` ""quote"" 'q'
+""" ++ [28040; 24687]%N ++ runes_of_ascii """ 
+
+// packet A { u8 x, }
+	// c
+    :	Packet	,
+[  4294967296
 
 ,
-1 :
-uint8x , 
-}	,repeat  /// triple
-  	a1 { repeat  zchar[0 ] Packet	, 	 // trailing space 
+""1""
 
-	char falsey
+] : T
 
-    @calculatedFrom( /// triple
-	""1"" 
-), },} 	 // " ++ [128512]%N ++ runes_of_ascii " emoji")).
-Eval vm_compute in ("<<<M2068>>>" ++ check (runes_of_ascii "MetaData
-   @tag u { }  options {
-// c
-// @lengthOf(
-float = int8 ;rootA =false ; As =	int16 // `tick` ""quote"" 'q'
-repeatCount
-    // trailing space 
-    =
-    int16
-; u8x =
-    //	t
-    '\x00' ; } options	{
-    repeatCount
-= 0
-u128
-    //
-    = false ; i64_
-// trailing space 
-// `tick` ""quote"" 'q'
-= '0' ; //	t
-}
-")).
-Eval vm_compute in ("<<<M2043>>>" ++ check (runes_of_ascii "MetaData
-    u { }  options {
-// c
-// @lengthOf(
-float = int8 ;rootA =false ; As =	int16 // `tick` ""quote"" 'q'
-repeatCount
-    // trailing space 
-    =
-    int16
-; u8x =
-    //	t
-    '\x00' ; } options	{
-    repeatCount
-= 0
-u128
-    //
-    = false ; i64_
-// trailing space 
-// `tick` ""quote"" 'q'
-= match ; //	t
-}
-")).
-Eval vm_compute in ("<<<M1877>>>" ++ check (runes_of_ascii "MetaData
-    u { }  { options
-// c
-// @lengthOf(
-float = int8 ;rootA =false ; As =	int16 // `tick` ""quote"" 'q'
-repeatCount
-    // trailing space 
-    =
-    int16
-; u8x =
-    //	t
-    '\x00' ; } options	{
-    repeatCount
-= 0
-u128
-    //
-    = false ; i64_
-// trailing space 
-// `tick` ""quote"" 'q'
-= '0' ; //	t
-}
-")).
-Eval vm_compute in ("<<<M2027>>>" ++ check (runes_of_ascii "MetaData
-    u { }  options {
-// c
-// @lengthOf(
-float = int8 ;rootA =false ; As =	int16 // `tick` ""quote"" 'q'
-repeatCount
-    // trailing space 
-    =
-    int16
-; u8x =
-    //	t
-    '\x00' ; } options	{
-    repeatCount
-= 0
-u128
-    //
-    = false i64_ ;
-// trailing space 
-// `tick` ""quote"" 'q'
-= '0' ; //	t
-}
-")).
-Eval vm_compute in ("<<<M2050>>>" ++ check (runes_of_ascii "MetaData
-    u { }  options {
-// c
-// @lengthOf(
-float = int8 ;rootA =false ; As =	int16 // `tick` ""quote"" 'q'
-repeatCount
-    // trailing space 
-    =
-    int16
-; u8x =
-    //	t
-    '\x00' ; } options	{
-    repeatCount
-= 0
-u128
-    //
-    = false ; i64_
-// trailing space 
-// `tick` ""quote"" 'q'
-= '0' ; //	t
+,  } , 
+	//	t
+	Logon
 
-")).
-Eval vm_compute in ("<<<M1985>>>" ++ check (runes_of_ascii "MetaData
-    u { }  options {
-// c
-// @lengthOf(
-float = int8 ;rootA =false ; As =	int16 // `tick` ""quote"" 'q'
-repeatCount
-    // trailing space 
-    =
-    int16
-; u8x =
-    //	t
-    '\x00' ; } 	{
-    repeatCount
-= 0
-u128
-    //
-    = false ; i64_
-// trailing space 
-// `tick` ""quote"" 'q'
-= '0' ; //	t
-}
-")).
-Eval vm_compute in ("<<<M2058>>>" ++ check (runes_of_ascii "MetaData
-    u { }  options {
-// c
-// @lengthOf(
-float = int8 ;rootA =false ; As =	int16 // `tick` ""quote"" 'q'
-repeatCount
-    // trailing space 
-    =
-    int16
-; u8x =
-    //	t
-    '\x00' ; } options	{
-    repeatCount
-= 0
-u128
-    //
-    = false ; i64_
-// trailing space 
-// `tick` ""quote"" 'q'
-")).
-Eval vm_compute in ("<<<M3962>>>" ++ check (runes_of_ascii "packet charz {
-    @tag(7)
-    repeat _x,
-}
+@calculatedFrom(  ""x y"" 
+) `it's`  ,	string  charz @calculatedFrom(  
+      // " ++ [128512]%N ++ runes_of_ascii " emoji
+	//	t
+    ""abc""	)
+, string options1 , 
+    /// triple
+    	/// triple
+	@lengthOf( 
+  //
+	  //x
+    As )
 
+repeat 
+zchar[	// `tick` ""quote"" 'q'
+7
+]	zchar
+,@lengthOf(	crc
+    )
+    x_y_z
+	@calculatedFrom(  """ ++ [28040; 24687]%N ++ runes_of_ascii """ )
+,  } ")).
+Eval vm_compute in ("<<<M3616>>>" ++ check (runes_of_ascii "options {
+    LittleEndian = true;
+    StringPrefixLenType = u16;
+    ArrayPrefixLenType = u8;
+    FixedStringPadChar = '0';
+}
+packet Logout {
+    repeat i16 f1,
+    string Ref,
+    @rightPad('\x00') char[9] Tail,
+    repeat char[6] Flags,
+    repeat char[3] Acct,
+}
+packet Party {
+    char[2] f1,
+    u8 Side2,
+    @leftPad(' ') char[1] venue,
+}
+packet Order {
+    repeat i64 Ref,
+    InPx62 {
+        i32 OrderId,
+    },
+    InNote53 {
+        InClordid80 {
+            char[] Acct,
+            u32 Px,
+            repeat Party,
+        },
+        InPrice12 {
+            u8 pad0,
+        },
+        repeat Logout,
+        InFlags23 {
+            repeat string seqNo,
+            string sym,
+            int8 Flags,
+            zchar[5] lastPx,
+            zchar[6] Px,
+        },
+        char[10] Acct,
+        InPx18 {
+            zchar[2] count,
+            Party,
+        },
+    },
+    char[5] Side2,
+    char[1] Acct,
+}
+root packet Ack {
+    u32 Tail,
+    repeat char[4] msgKind,
+    repeat Logout,
+}
+")).
+Eval vm_compute in ("<<<M4523>>>" ++ check (runes_of_ascii "
+
+  options
+	{StringPrefixLenType	=  u64
+	;ArrayPrefixLenType	=
+	u16
+
+; FixedStringPadChar=  ' ' ; }
+packet
+	Logon {	i32
+
+msgKind, 
+repeat
+    InOrderid65 {
+
+    u8
+pad0
+
+,}
+    ,  i8
+tag7
+,
+    @leftPad  (
+
+' ' )char[ 12
+
+    ] 
+x,} 
+packet Leg 
+{char[] f1 ,repeat
+
+    char[	5  ]
+
+Px,InQty34
+{ repeat
+
+    char[6
+	]Qty ,
+char[ 7
+]	seqNo	,
+string 
+count ,
+
+}  ,Logon
+,  }	packet
+
+    Party
+{ 
+@leftPad
+	(	'0'
+
+) char[
+
+    10
+	]  OrderId 
+, 
+string
+    Tail
+,
+}packet
+Fill  {
+zchar[5 ] 
+venue
+
+, zchar[ 3 ]  clOrdID  ,
+InRef95
+{InLastpx25{
+u8 pad0,
+
+    } ,float64 OrderId ,
+
+    i32
+f1
+
+    ,
+    float32
+
+x  ,
+char[] seqNo ,}
+
+,repeat string
+seqNo
+	,
+
+    } root 
+packet Heartbeat
+	{  repeat
+    Leg, u32 seqNo , u16
+tag7 ,
+u32 Flags @lengthOf(
+
+    Body
+
+    )
+
+,match
+
+tag7 
+as Body
+    {
+[	195
+	,	75
+
+    ]  : Party
+
+, 171:Fill
+	,78 :
+    Logon,  142 :	Leg ,
+
+}
+, 
+u32
+	Note @calculatedFrom( ""CRC32"" 
+),
+
+}
+")).
+Eval vm_compute in ("<<<M394>>>" ++ check (runes_of_ascii "
+MetaData As	{ zchar[ 007	]
+BodyLength `u8 x,` , char[]
+    o
+,
+T stringy ,	f32a
+    As
+, }root packet	Logon{int32
+charz @calculatedFrom(	""`tick`"" ) `crlf
+line`,
+match uint8x as options1 {
+10
+: Logon 4294967296
+// `tick` ""quote"" 'q'
+// `tick` ""quote"" 'q'
+: pack, 10
+    // c
+    :
+    BodyLength  ,
+0 : options1 , 0:calculatedFrom
+, [
+""it's""
+,
+0, ""a\""b"" //
+, ""a	b""	, 0123456789 ,
+00 , 3 ,
+007 // " ++ [27880; 37322]%N ++ runes_of_ascii "
+]
+    :packetx	}, @leftPad// packet A { u8 x, }
+(	'\x00'
+    ) @tag(
+4294967296 )
+    repeat uint8 Packet
+`it's` ,// packet A { u8 x, }
+zchar[
+    0123456789 ] len
+    // " ++ [27880; 37322]%N ++ runes_of_ascii "
+    @lengthOf( A  )
+, zchar[// " ++ [128512]%N ++ runes_of_ascii " emoji
+0
+    ]u @calculatedFrom(
+""x y"" ) , @tag( 00 )	match zchar as
+o { 4294967296: uint8x
+[ ""CRC32""
+    , ""// no comment""
+// a // b
+// @lengthOf(
+, 4294967296 , 0123456789
+    ] :
+BodyLength ,}, @leftPad( '0' ) @lengthOf( BodyLength  )
+@tag(0 ) calculatedFrom`line1
+line2`
+,}")).
+Eval vm_compute in ("<<<M3685>>>" ++ check (runes_of_ascii "// a // b
 MetaData x {
-    i32 float,
-    f32 u8x,
-    uint64 rootA `crlf
-    line`,
+    i8 MetaDataX `" ++ [233]%N ++ runes_of_ascii "`,
+    string matchKey,// packet A { u8 x, }
+    BodyLength f32a,
+    char[7] u8x,
+    char[] len,
+    int16 msg_type,
+}
+
+packet o {
+    match roots as T {
+        [
+            255, 1, 1, """ ++ [28040; 24687]%N ++ runes_of_ascii """, ""`tick`"",
+            ""a\""b"", 42
+        ] : pack,
+        [0, ""// no comment""] : Logon,
+        [
+            ""1"", ""abc"", 255, 3, ""\n"",
+            255, """ ++ [128512]%N ++ runes_of_ascii """, ""{,}""
+        ] : x_y_z,
+    },
+    char[] len @lengthOf(Pad),
+    char[] BodyLength,
+    trueish @calculatedFrom(""1"") `" ++ [233]%N ++ runes_of_ascii "`,
+    match chars as x_y_z {
+        ""`tick`"" : calculatedFrom,
+    },
+    @lengthOf(string_)
+    char[3] f32a,
+    falsey `" ++ [28040; 24687; 31867; 22411]%N ++ runes_of_ascii "`,
+    repeat int64 u128 `tab	here`,
+    uint8 msg_type @calculatedFrom(""a\\"") `line1
+    line2`,
 }
 
 options {
-    T = f64;
-    calculatedFrom = true
+    body = zchar[4294967296];
+    u128 = '\x00'
+    BodyLength = float32
 }
+// @lengthOf(")).
+Eval vm_compute in ("<<<M746>>>" ++ check (runes_of_ascii "packet o
+    {
+    /// triple
+    }
+packet Pad // a // b
+{ repeat  f32
+metadata	`two words`,repeat
+    charz	{  i32 i64_@calculatedFrom(""\" ++ [233]%N ++ runes_of_ascii """ ) `u8 x,` ,
+repeat uint8x
+tag , uint16// " ++ [128512]%N ++ runes_of_ascii " emoji
+Packet	@calculatedFrom( ""a	b"" ) `u8 x,` ,
+    } ,
+}  packet
+metadata {@leftPad	( )
+repeat  f32 i64_  ,
+    // `tick` ""quote"" 'q'
+    f32a @calculatedFrom( ""x y""
+) , repeat zchar[007 ]  body // a // b
+,@rightPad ( '\x00' )	string MetaDataX  @lengthOf( options1)
+,  @tag( 3 )
+    match  _x as
+    lengthOf {  ""`tick`"": //	t
+body}
+/// triple
+// c
+,@calculatedFrom(""`tick`""
+)i64 options1@calculatedFrom( ""abc"") `" ++ [28040; 24687; 31867; 22411]%N ++ runes_of_ascii "` , i8 As // a // b
+, rootA
+@lengthOf( lengthOf) //x
+,
+// " ++ [27880; 37322]%N ++ runes_of_ascii "
+// " ++ [27880; 37322]%N ++ runes_of_ascii "
+}  MetaData body { int16 // " ++ [128512]%N ++ runes_of_ascii " emoji
+len `line1
+line2`
+,  uint16 stringy , uint64 falsey
+`{ , }`, len len ,
+} // " ++ [128512]%N ++ runes_of_ascii " emoji")).
+Eval vm_compute in ("<<<M3638>>>" ++ check (runes_of_ascii "
 
-packet trueish {
+  options
+{
+
+    LittleEndian= false ;StringPrefixLenType= u8
+; 
+ArrayPrefixLenType =	u8
+    ;
+
+    FixedStringPadFromLeft= true
+
+;
+    FixedStringPadChar
+
+    =  ' '
+
+;
+
+    }
+packet Trade	{
+
+zchar[2	] 
+Side2,	i8
+
+    seqNo	,
+
+    }
+
+    packet
+    Party {
+	uint32
+price  ,	} 
+packet Ack
+{	@rightPad( '\x00') char[	6
+    ]  x
+    ,	repeat char[ 4
+
+    ] 
+Flags ,zchar[
+    9  ] f1
+	,
+    }	packet Cancel{
+
+Ack
+	,
+
 }
+	packet Heartbeat {string
+    Px , string
 
-root packet rootA {
-    crc _x `say ""hi""`,
-    stringy uint8x,
-    repeat x_y_z `u8 x,`,
-}")).
-Eval vm_compute in ("<<<M676>>>" ++ check (runes_of_ascii "packet charz { @tag(7) repeat _x , }MetaData x	{ i32 float , f32 u8x,uint64
-rootA	`crlf
-line` , }  options{ T
-= f64 ;
-    calculatedFrom=
-true	}
-packet trueish {
-    } root
-    //	t
-    packet rootA
-{ crc _x `say ""hi""`, stringy
-    //
-    uint8x, repeat
-x_y_z`u8 x,`
+Acct
+,f64 
+Side2
+, InQty24 { i16
+seqNo ,
+repeat
+i32  Flags ,
+
+    }  , }
+
+root packet
+Logon{
+    Trade ,  i64
+	venue ,
+    u32 x
+,u8
+seqNo 
+, match
+
+seqNo
+	as
+    Body  { 
+[
+1 , 164
+]
+: 
+Ack , 31 :
+    Cancel
+    , 23
+
+: Heartbeat
+    , 64
+
+    :
+    Party
+    , }
 , }
+
 ")).
-Eval vm_compute in ("<<<M3598>>>" ++ check (runes_of_ascii "packet MDSnapshotZZ {
+Eval vm_compute in ("<<<M659>>>" ++ check (runes_of_ascii "options
+    {
+metadata = ""a\""b""
+;
+    int
+    = true
+; chars ='\x00';
+    string_ = '\x00'
+; }packet x { match As as
+    tag{ 1 :zchar, ""a	b"" // packet A { u8 x, }
+: len,
+} , Pad i64_ , // " ++ [27880; 37322]%N ++ runes_of_ascii "
+@tag(3
+)leftPad {// trailing space 
+body , } ,char[]i8i8 `{ , }` ,charz { repeat
+u16
+zchar `two words` ,}
+//
+//	t
+, int64 Z9_// " ++ [27880; 37322]%N ++ runes_of_ascii "
+@calculatedFrom( ""a\\""
+)
+    , @rightPad ( '\x00'
+    ) metadata@lengthOf(i64_// `tick` ""quote"" 'q'
+) , @lengthOf( // @lengthOf(
+int
+) u32	u128 , // packet A { u8 x, }
+@tag( 10 )
+// " ++ [27880; 37322]%N ++ runes_of_ascii "
+// " ++ [128512]%N ++ runes_of_ascii " emoji
+@rightPad (
+    '\x00') //
+@tag( 007)
+float {	int32 Pad`" ++ [233]%N ++ runes_of_ascii "`  , i16	options1
+`` , repeatCount// @lengthOf(
+,	chars @lengthOf(  pack) ,
+    } ,
+repeat int
+{zchar[ 10]
+u `two words` , i64 Logon,
+}, }
+")).
+Eval vm_compute in ("<<<M1239>>>" ++ check (runes_of_ascii "packet Header{ @rightPad
+    (
+    '0' )
+char[] x_y_z, Header {	repeat zchar[ 00 ] leftPad ,
+    repeat
+f64 // a // b
+float `a\`  , match o	as pack{ ""1"":
+    asx ,65535
+: x// `tick` ""quote"" 'q'
+, 65535// @lengthOf(
+: i8i8
+, [//
+""" ++ [28040; 24687]%N ++ runes_of_ascii """]: matchKey } ,
+    repeat A , } ,
+    char[ 3]trueish, @calculatedFrom( """ ++ [128512]%N ++ runes_of_ascii """  )
+    f32a , } packet uint8x
+{
+//
+//x
+chars@lengthOf(  Logon
+) , @leftPad
+    (' ' )repeat zchar[
+1 ]	_x `// not a comment` ,	char[]
+body``
+,uint32 leftPad `line1
+line2`,
+repeat x_y_z { u8x msg_type // `tick` ""quote"" 'q'
+,
+} , @tag( 0 ) int16 i8i8 `tab	here`
+, repeat Pad `doc` ,
+repeat
+// packet A { u8 x, }
+//
+u ,
+    u8x
+@calculatedFrom(  ""x y"" )
+`two words` , }
+")).
+Eval vm_compute in ("<<<M1378>>>" ++ check (runes_of_ascii "options{
+    A = ""\n"" ; matchKey = 4294967296 } root packet repeatCount
+{ rootA `{ , }`
+    , @tag(0 )	@tag(  007 )
+    string
+    packetx
+    ,  repeat // c
+u128
+u128	`u8 x,`	, @leftPad
+    ( ' '	)
+    i64_ @calculatedFrom(""`tick`""	)
+    // @lengthOf(
+    `it's`
+, char[ 00 ] lengthOf `it's` , Foo`u8 x,`, zchar[
+65535] i64_ , char[
+    // c
+    0	]_x
+    ,
+    repeat zchar[0123456789]	u
+,  @tag(
+    10 // trailing space 
+)
+/// triple
+// packet A { u8 x, }
+int64 pack
+@calculatedFrom( ""packet""
+    )
+`u8 x,`
+// a // b
+// trailing space 
+, } packet
+    float
+// a // b
+//x
+{@tag(
+0
+    // " ++ [27880; 37322]%N ++ runes_of_ascii "
+    )
+char[0
+]
+stringy `" ++ [28040; 24687; 31867; 22411]%N ++ runes_of_ascii "`	, } /// triple")).
+Eval vm_compute in ("<<<M847>>>" ++ check (runes_of_ascii "options// trailing space 
+{ o =	007
+    // packet A { u8 x, }
+    ;
+}
+    root packet options1 {//
+@rightPad () zchar[ 65535 ] x, @lengthOf( lengthOf	)x metadata // @lengthOf(
+, // `tick` ""quote"" 'q'
+@tag(
+007  )int64
+uint8x
+// @lengthOf(
+//x
+@lengthOf(i64_ )//x
+`a\`, @calculatedFrom(""1"" )	@tag(
+007 ) repeat	u32 metadata
+, // a // b
+match
+    As
+as rootA {
+""a\""b"" :As
+,
+} ,@calculatedFrom(
+""CRC32"" ) uint16 As
+@calculatedFrom(
+    ""a	b"")
+`" ++ [28040; 24687; 31867; 22411]%N ++ runes_of_ascii "` ,@lengthOf( A) u int `" ++ [233]%N ++ runes_of_ascii "`, i64_ MetaDataX , leftPad
+    , @lengthOf(
+_x) body `two words` ,
+    } MetaData repeatCount
+{ charz	packetx ,  float32 f32a ,
+}
+")).
+Eval vm_compute in ("<<<M877>>>" ++ check (runes_of_ascii "root packet A { @tag( 42	)
+    match // @lengthOf(
+Logon as rootA { 0123456789
+: int } ,
+repeat char[]
+uint8x `crlf
+line`, int {
+// `tick` ""quote"" 'q'
+//
+repeat
+f64 Packet , uint8x  @calculatedFrom(
+    ""1"" ) , string  x `it's` , }	, @lengthOf( Foo )
+@calculatedFrom(""a	b""
+) @lengthOf( body)
+metadata {match	pack as matchKey { ""x y"" : falsey , ""it's"" //
+: Header}	, body {
+char[] len  , /// triple
+} , }
+, char[
+    // a // b
+    0123456789
+    ]	T
+    // " ++ [128512]%N ++ runes_of_ascii " emoji
+    @calculatedFrom(
+    ""`tick`"" )
+    , }options{ len =' '	} MetaData
+As {
+    f64 As , char[ 0123456789 ] x
+,}
+")).
+Eval vm_compute in ("<<<M4189>>>" ++ check (runes_of_ascii "packet i8i8 {
+    char[] string_ `tab	here`,
+    @lengthOf(T)
+    @lengthOf(uint8x)
+    @rightPad('\x00')
+    zchar[4294967296] f32a @calculatedFrom(""CRC32"") `it's`,
+}// @lengthOf(
+
+root packet A {
+    @rightPad()
+    @calculatedFrom(""" ++ [233]%N ++ runes_of_ascii "t" ++ [233]%N ++ runes_of_ascii """)
+    string T `crlf
+    line`,
+    u64 falsey `two words`,
+    zchar[65535] lengthOf `doc`,
+    match crc as int {
+        [""packet"", ""it's""] : body,
+        007 : leftPad,
+        ""{,}"" : Z9_,
+        [
+            0123456789, 00, ""a\\"", """ ++ [128512]%N ++ runes_of_ascii """, ""\" ++ [233]%N ++ runes_of_ascii """,
+            ""`tick`"", ""it's"", """ ++ [233]%N ++ runes_of_ascii "t" ++ [233]%N ++ runes_of_ascii """
+        ] : x_y_z,
+    },
+}")).
+Eval vm_compute in ("<<<M3891>>>" ++ check (runes_of_ascii "MetaData a1 {
+    // `tick` ""quote"" 'q'
+    //	t
+    _x asx,
+}
+
+MetaData Packet {
+    BodyLength int,
+}
+
+root packet x {
+    @leftPad(' ')
+    f64 repeatCount @lengthOf(x) `line1
+        line2`,
+    @rightPad('\x00')
+    match i8i8 as pack {
+        [
+            10, """ ++ [128512]%N ++ runes_of_ascii """, 10, ""a	b"", 1,
+            7
+        ] : leftPad,
+        [
+            255, 10, 0, 1, """ ++ [233]%N ++ runes_of_ascii "t" ++ [233]%N ++ runes_of_ascii """,
+            ""x y""
+        ] : A,
+        """ ++ [28040; 24687]%N ++ runes_of_ascii """ : u,
+        00 : charz,
+        // a // b
+        """ ++ [28040; 24687]%N ++ runes_of_ascii """ : len,
+        0 : As,
+    },
+    f32 x `" ++ [233]%N ++ runes_of_ascii "`,
+}
+
+MetaData x {
+}")).
+Eval vm_compute in ("<<<M4394>>>" ++ check (runes_of_ascii "MetaData
+    //	t
+  u
+	{  int8
+	body,
+string Packet ,}	options  // `tick` ""quote"" 'q'
+
+  {	matchKey  =
+
+    float64
+	;} packet roots {  // " ++ [128512]%N ++ runes_of_ascii " emoji
+@calculatedFrom(	""abc""	)  match
+MetaDataX
+        // " ++ [27880; 37322]%N ++ runes_of_ascii "
+  	// c
+		as  // " ++ [27880; 37322]%N ++ runes_of_ascii "
+  _x{
+007
+
+    :o [ 42  ,  ""x y"" , 65535
+,
+1 ,
+    65535 ,
+
+""a	b""
+, 4294967296,  00
+	]:f32a
+
+    ""CRC32"" : repeatCount  ,
+
+    ""CRC32"" :u128
+    ,	}	, } 
+options { } MetaData 
+uint8x
+{ char[] 
+u128
+
+, body
+
+crc `
+`
+
+    ,  lengthOf	rootA , 	 // " ++ [128512]%N ++ runes_of_ascii " emoji
+i8 crc ,
+
+    }")).
+Eval vm_compute in ("<<<M1043>>>" ++ check (runes_of_ascii "options {
+    } root
+    packet u8x { options1 { Header @lengthOf( x_y_z
+) , u16  f32a ,} , zchar[ 4294967296 ]leftPad
+    , repeat char[
+    007 ]//	t
+trueish, int
+@calculatedFrom( """ ++ [28040; 24687]%N ++ runes_of_ascii """ )
+    // c
+    ,
+    match
+    i64_  as chars{""" ++ [128512]%N ++ runes_of_ascii """	:// a // b
+Logon, 42 : matchKey
+    65535 :	u , [ 4294967296
+,
+65535
+] :As ,} ,
+@rightPad // a // b
+( '\x00')
+    @tag(
+42 )
+    // packet A { u8 x, }
+    i32 Pad// " ++ [128512]%N ++ runes_of_ascii " emoji
+`two words`
+, // c
+@tag(
+    // c
+    00 )
+    f32a`tab	here` ,
+    }
+")).
+Eval vm_compute in ("<<<M1277>>>" ++ check (runes_of_ascii "MetaData o{ i16 len // @lengthOf(
+, }  packet msg_type{ chars roots
+    // @lengthOf(
+    , // trailing space 
+repeat char[ 0  ] packetx `{ , }` //x
+, @rightPad( '\x00'	)
+    // @lengthOf(
+    repeat i64 x
+, match packetx // " ++ [128512]%N ++ runes_of_ascii " emoji
+as  packetx{ 65535:x [ ""\n""
+    // a // b
+    , 3 ]:Logon,  } , BodyLength @calculatedFrom(
+""{,}"" )
+    // trailing space 
+    , repeat pack// c
+Z9_ , x
+    i8i8 ,
+} options
+    { int=
+    ""abc"" ; u
+= ""abc""	int = '0'
+;
+    }
+")).
+Eval vm_compute in ("<<<M3968>>>" ++ check (runes_of_ascii "packet crc {
+    @leftPad(' ')
+    u64 packetx @lengthOf(trueish),
+    float `line1
+        line2`,
+    // packet A { u8 x, }
+    // trailing space 
+}
+
+packet msg_type {
+    zchar[3] i8i8 @lengthOf(u),
+    char[] roots,
+    match x_y_z as uint8x {
+        ""a	b"" : body,
+    },
+    @tag(42)
+    @rightPad('0')
+    Packet @calculatedFrom(""1"") `
+        `,
+    @lengthOf(MetaDataX)
+    i32 trueish,
+    @rightPad(' ')
+    u128 @lengthOf(_x),
+}")).
+Eval vm_compute in ("<<<M1302>>>" ++ check (runes_of_ascii "packet packetx
+    {match _x
+as // a // b
+rootA {
+3 :  leftPad } // " ++ [27880; 37322]%N ++ runes_of_ascii "
+, u32 stringy// c
+, @rightPad // " ++ [128512]%N ++ runes_of_ascii " emoji
+(// trailing space 
+' '
+)
+    @lengthOf( A // " ++ [128512]%N ++ runes_of_ascii " emoji
+) string msg_type `u8 x,`, match string_  as body { [ 42 ,
+    // @lengthOf(
+    ""1""	,""packet"" , """ ++ [128512]%N ++ runes_of_ascii """ , ""packet"" ,
+0123456789 ]
+    //	t
+    :
+    calculatedFrom } , //	t
+u8 Packet , @lengthOf( // `tick` ""quote"" 'q'
+lengthOf )repeat u8x asx
+`doc` ,  }
+")).
+Eval vm_compute in ("<<<M3613>>>" ++ check (runes_of_ascii "packet Frame {
+    u8 HK,
+    u8 BK,
+    u8 TK,
+    match HK as Hdr {
+        1 : HdrA,
+        2 : HdrB,
+    },
+    match BK as Body {
+        1 : BodyA,
+        2 : BodyB,
+    },
+    match TK as Trl {
+        1 : TrlA,
+    },
+}
+packet HdrA {
     u8 a,
 }
-packet OrderACK {
+packet HdrB {
     u16 b,
 }
-packet HTTPServerInfo {
-    string s,
+packet BodyA {
+    u32 c,
 }
-root packet FIXMsg {
-    u8 KType,
-    MDSnapshotZZ,
-    repeat OrderACK,
-    match KType as Body {
-        1 : HTTPServerInfo,
-        2 : OrderACK,
+packet BodyB {
+    u64 d,
+}
+packet TrlA {
+    u8 e,
+}
+root packet Msg {
+    Frame,
+    u8 x,
+}
+")).
+Eval vm_compute in ("<<<M624>>>" ++ check (runes_of_ascii "packet  x_y_z
+    // @lengthOf(
+    { @tag( 1
+/// triple
+//
+) A @calculatedFrom(""a\""b""	) , match Pad as lengthOf{ 007 :u128 , }	, match
+chars as roots
+    {1	: roots , [ 1
+    ] :
+    A
+, // " ++ [27880; 37322]%N ++ runes_of_ascii "
+""a	b"" : roots
+[	""abc"" , 0
+    ] :
+    // trailing space 
+    u128 ,
+    }
+    , repeat i64
+i8i8 , @calculatedFrom( """ ++ [233]%N ++ runes_of_ascii "t" ++ [233]%N ++ runes_of_ascii """ )BodyLength,
+@tag( 255 ) string u8x ,
+    BodyLength options1 `
+`
+, }
+")).
+Eval vm_compute in ("<<<M4392>>>" ++ check (runes_of_ascii "root packet As {
+    u {
+        tag a1,
+        repeat charz `a\`,
+    },
+    match float as u128 {
+        ""a\\"" : msg_type,
+        ""`tick`"" : packetx,
+    },
+    repeat char[255] falsey `two words`,
+    f32 packetx,
+    zchar[0] options1 `{ , }`,
+    repeat rootA `
+        `,
+}
+
+MetaData Header {
+    u32 Header ``,
+}
+
+//x
+//x
+MetaData matchKey {
+    msg_type Z9_,
+}")).
+Eval vm_compute in ("<<<M4250>>>" ++ check (runes_of_ascii "  packet	Foo 
+{char[ 10
+    ] 
+f32a @lengthOf( calculatedFrom
+) `crlf
+line`
+
+,  match
+	pack as	A	// `tick` ""quote"" 'q'
+		{
+	""" ++ [233]%N ++ runes_of_ascii "t" ++ [233]%N ++ runes_of_ascii """ :
+
+    f32a	/// triple
+    ,
+[
+    ""x y"" ,""`tick`""]	:
+falsey ,	""x y"" 
+
+//x
+:
+
+Foo
+    ,7: chars// c
+,	""{,}""
+    :  u128,255 : 
+A
+
+,
+	}
+    ,
+
+    string
+    //x
+	// trailing space 
+T	`
+`
+    ,
+
+    }/// triple
+ 
+")).
+Eval vm_compute in ("<<<M357>>>" ++ check (runes_of_ascii "options
+{
+// @lengthOf(
+// " ++ [128512]%N ++ runes_of_ascii " emoji
+x = 10//
+; x_y_z//
+=
+    true	;
+Logon =
+    i32 T =
+    0 }
+MetaData
+f32a	{ zchar len,
+    }
+    options {string_
+// c
+//
+= zchar[
+007 ] ;
+x_y_z = '0'
+    ;
+}MetaData msg_type // " ++ [27880; 37322]%N ++ runes_of_ascii "
+{ lengthOf msg_type `two words`
+    ,	i64 crc , packetx  zchar
+`// not a comment`
+, string// c
+falsey `tab	here` , }
+")).
+Eval vm_compute in ("<<<M1996>>>" ++ check (runes_of_ascii "MetaData
+    u { }  options {
+// c
+// @lengthOf(
+float = int8 ;rootA =false ; As =	int16 // `tick` ""quote"" 'q'
+repeatCount
+    // trailing space 
+    =
+    int16
+; u8x =
+    //	t
+    '\x00' ; } options	{
+    repeatCount repeatCount
+= 0
+u128
+    //
+    = false ; i64_
+// trailing space 
+// `tick` ""quote"" 'q'
+= '0' ; //	t
+}
+")).
+Eval vm_compute in ("<<<M2028>>>" ++ check (runes_of_ascii "MetaData
+    u { }  options {
+// c
+// @lengthOf(
+float = int8 ;rootA =false ; As =	int16 // `tick` ""quote"" 'q'
+repeatCount
+    // trailing space 
+    =
+    int16
+; u8x =
+    //	t
+    '\x00' ; } options	{
+    repeatCount
+= 0
+u128
+    //
+    = false packet i64_
+// trailing space 
+// `tick` ""quote"" 'q'
+= '0' ; //	t
+}
+")).
+Eval vm_compute in ("<<<M1956>>>" ++ check (runes_of_ascii "MetaData
+    u { }  options {
+// c
+// @lengthOf(
+float = int8 ;rootA =false ; As =	int16 // `tick` ""quote"" 'q'
+repeatCount
+    // trailing space 
+    =
+    int16
+; ; u8x =
+    //	t
+    '\x00' ; } options	{
+    repeatCount
+= 0
+u128
+    //
+    = false ; i64_
+// trailing space 
+// `tick` ""quote"" 'q'
+= '0' ; //	t
+}
+")).
+Eval vm_compute in ("<<<M2066>>>" ++ check (runes_of_ascii "MetaData
+    u { }  options {
+// c
+// @lengthOf(
+float = int8 ;rootA =false ; As =	int16 // `tick` ""quote"" 'q'
+repeatCount
+    // trailing space 
+    =
+    int16
+; u8x =
+    //	t
+    '\x00' ; } options	{
+    repeatCount
+= 0
+u128
+    //
+ '   = false ; i64_
+// trailing space 
+// `tick` ""quote"" 'q'
+= '0' ; //	t
+}
+")).
+Eval vm_compute in ("<<<M1973>>>" ++ check (runes_of_ascii "MetaData
+    u { }  options {
+// c
+// @lengthOf(
+float = int8 ;rootA =false ; As =	int16 // `tick` ""quote"" 'q'
+repeatCount
+    // trailing space 
+    =
+    int16
+; u8x =
+    //	t
+    string ; } options	{
+    repeatCount
+= 0
+u128
+    //
+    = false ; i64_
+// trailing space 
+// `tick` ""quote"" 'q'
+= '0' ; //	t
+}
+")).
+Eval vm_compute in ("<<<M1945>>>" ++ check (runes_of_ascii "MetaData
+    u { }  options {
+// c
+// @lengthOf(
+float = int8 ;rootA =false ; As =	int16 // `tick` ""quote"" 'q'
+repeatCount
+    // trailing space 
+    
+    int16
+; u8x =
+    //	t
+    '\x00' ; } options	{
+    repeatCount
+= 0
+u128
+    //
+    = false ; i64_
+// trailing space 
+// `tick` ""quote"" 'q'
+= '0' ; //	t
+}
+")).
+Eval vm_compute in ("<<<M1885>>>" ++ check (runes_of_ascii "MetaData
+    u { }  options {
+// c
+// @lengthOf(
+ = int8 ;rootA =false ; As =	int16 // `tick` ""quote"" 'q'
+repeatCount
+    // trailing space 
+    =
+    int16
+; u8x =
+    //	t
+    '\x00' ; } options	{
+    repeatCount
+= 0
+u128
+    //
+    = false ; i64_
+// trailing space 
+// `tick` ""quote"" 'q'
+= '0' ; //	t
+}
+")).
+Eval vm_compute in ("<<<M3521>>>" ++ check (runes_of_ascii "// top
+packet // c0
+float // c1
+{ // c2
+repeat // c3
+i8i8 // c4
+MetaDataX // c5
+`it's` // c6
+, // c7
+rootA // c8
+, // c9
+repeat // c10
+int8 // c11
+int // c12
+, // c13
+match // c14
+repeatCount // c15
+as // c16
+x_y_z // c17
+{ // c18
+""{,}"" // c19
+: // c20
+Logon // c21
+, // c22
+} // c23
+, // c24
+} // c25
+")).
+Eval vm_compute in ("<<<M3623>>>" ++ check (runes_of_ascii "options {
+    LittleEndian = true;
+    StringPrefixLenType = u8;
+    ArrayPrefixLenType = u8;
+}
+packet Ack {
+}
+root packet Quote {
+    Ack,
+    InSym94 {
+        repeat Ack,
+    },
+    u16 msgKind,
+    u16 OrderId @lengthOf(Body),
+    match msgKind as Body {
+        [110, 48] : Ack,
     },
 }
 ")).
-Eval vm_compute in ("<<<M478>>>" ++ check (runes_of_ascii "
-packet	packetx{
-    @leftPad
-    /// triple
-    (
-'0' )	@lengthOf(  T ) @calculatedFrom( ""\" ++ [233]%N ++ runes_of_ascii """ )
-match i64_
-    as tag// " ++ [128512]%N ++ runes_of_ascii " emoji
-{
-    ""abc""// packet A { u8 x, }
-:Header , [7
-] :
-chars,	""a	b"" :	f32a , ""\" ++ [233]%N ++ runes_of_ascii """ :f32a ,	""CRC32"" : zchar , ""abc""  : Z9_, } , }
-")).
-Eval vm_compute in ("<<<M1578>>>" ++ check (runes_of_ascii "packet
-//	t
-// trailing space 
-_x {
-// packet A { u8 x, }
-// c
-char[
-3
-    ] u8x @lengthOf(
-u8x ) , @calculatedFrom(""" ++ [128512]%N ++ runes_of_ascii """ // @lengthOf(
-)
-i16	Foo
-@lengthOf(	string_
-    ) )`doc`	, repeat	i64 metadata , @lengthOf( string_
-) i8 // c
-u  `line1
-line2`	,
-}
-")).
-Eval vm_compute in ("<<<M893>>>" ++ check (runes_of_ascii "packet string_ {
-zchar[ 65535 ]
-    stringy `
+Eval vm_compute in ("<<<M238>>>" ++ check (runes_of_ascii "MetaData
+    a1 { // a // b
+}options { o
+= 255
+; } packet f32a //
+{ uint8 _x	@calculatedFrom( ""x y""
+)	,}MetaData
+    options1
+{  f64 lengthOf `it's`
+,lengthOf metadata,	int8 crc
 `
+` /// triple
 ,
-    // `tick` ""quote"" 'q'
-    @lengthOf( As) string
-Packet
-    ,
-} packet	Foo {@tag( 255)
-lengthOf@calculatedFrom(
-    ""{,}""
-) ,
-    }root packet MetaDataX {
-@leftPad( '0'  )
-    stringy`{ , }` , }
+    char[0123456789//	t
+]o ,
+// " ++ [128512]%N ++ runes_of_ascii " emoji
+// packet A { u8 x, }
+char[] //	t
+a1,}
 ")).
-Eval vm_compute in ("<<<M1629>>>" ++ check (runes_of_ascii "packet
+Eval vm_compute in ("<<<M3994>>>" ++ check (runes_of_ascii "MetaData 
+calculatedFrom
+{
+
+    Foo
+uint8x
+
+    ,
+o	Packet  `a\`
+
+    ,
+	int8
+Packet  ,  As
+
+calculatedFrom	,
+}
+	options
+	{T 
+	    // trailing space 
+	  // c
+	  = 
+u64	; stringy 
+= /// triple
+  f64
+
+    ; BodyLength= 
+  // a // b
+    /// triple
+true ; 
+}
+
+")).
+Eval vm_compute in ("<<<M1625>>>" ++ check (runes_of_ascii "packet
 //	t
 // trailing space 
 _x {
@@ -2067,44 +1959,12 @@ u8x ) , @calculatedFrom(""" ++ [128512]%N ++ runes_of_ascii """ // @lengthOf(
 i16	Foo
 @lengthOf(	string_
     )`doc`	, repeat	i64 metadata , @lengthOf( string_
-) u // c
-i8  `line1
+@lengthOf( i8 // c
+u  `line1
 line2`	,
 }
 ")).
-Eval vm_compute in ("<<<M3714>>>" ++ check (runes_of_ascii "
-MetaData
-T	{ 
-
-// c
-    //	t
-      trueish
-	i64_ 
-`" ++ [233]%N ++ runes_of_ascii "` 	 // c
-,f64
-	a1
-`doc`
-
-,
-	int A
-    ,
-u32
-crc
-    `" ++ [28040; 24687; 31867; 22411]%N ++ runes_of_ascii "`
-,charz _x
-/// triple
-
-// trailing space 
-		,  
-  // trailing space 
-  char[  // packet A { u8 x, }
-  255 ]  msg_type 
-`" ++ [28040; 24687; 31867; 22411]%N ++ runes_of_ascii "`
-,
-    }
-
-")).
-Eval vm_compute in ("<<<M1602>>>" ++ check (runes_of_ascii "packet
+Eval vm_compute in ("<<<M1580>>>" ++ check (runes_of_ascii "packet
 //	t
 // trailing space 
 _x {
@@ -2117,52 +1977,170 @@ u8x ) , @calculatedFrom(""" ++ [128512]%N ++ runes_of_ascii """ // @lengthOf(
 )
 i16	Foo
 @lengthOf(	string_
-    )`doc`	, repeat	i64  , @lengthOf( string_
+    int32`doc`	, repeat	i64 metadata , @lengthOf( string_
 ) i8 // c
 u  `line1
 line2`	,
 }
 ")).
-Eval vm_compute in ("<<<M763>>>" ++ check (runes_of_ascii "packet rootA{
-char[4294967296 ] rootA@calculatedFrom(	""a	b""	) `crlf
-line`, @calculatedFrom( """" )
-// a // b
+Eval vm_compute in ("<<<M1663>>>" ++ check (runes_of_ascii "packet
+//	t
 // trailing space 
-pack@lengthOf(// packet A { u8 x, }
-rootA)  `
-`,
-@rightPad (
-' ' ) repeat stringy repeatCount`two words`, }")).
-Eval vm_compute in ("<<<M3748>>>" ++ check (runes_of_ascii "packet f32a {
+_x {
+// packet A { u8 x, }
+// c
+char[
+3
+    ] u8x @lengthOf(
+u8x ) , @calculatedFrom(""" ++ [128512]%N ++ runes_of_ascii """ // @lengthOf(
+)
+i16	Foo
+@lengthOf(	string_
+    )`doc`	, repeat	i64 metadata , @lengthOf( string_
+) i8 // c
+u  `line1
+line2`	,
+}
+" ++ [65279]%N ++ runes_of_ascii " ")).
+Eval vm_compute in ("<<<M1534>>>" ++ check (runes_of_ascii "packet
+//	t
+// trailing space 
+_x {
+// packet A { u8 x, }
+// c
+char[
+3
+    ] u8x @lengthOf(
+u8x , ) @calculatedFrom(""" ++ [128512]%N ++ runes_of_ascii """ // @lengthOf(
+)
+i16	Foo
+@lengthOf(	string_
+    )`doc`	, repeat	i64 metadata , @lengthOf( string_
+) i8 // c
+u  `line1
+line2`	,
+}
+")).
+Eval vm_compute in ("<<<M1507>>>" ++ check (runes_of_ascii "packet
+//	t
+// trailing space 
+_x {
+// packet A { u8 x, }
+// c
+char[
+
+    ] u8x @lengthOf(
+u8x ) , @calculatedFrom(""" ++ [128512]%N ++ runes_of_ascii """ // @lengthOf(
+)
+i16	Foo
+@lengthOf(	string_
+    )`doc`	, repeat	i64 metadata , @lengthOf( string_
+) i8 // c
+u  `line1
+line2`	,
+}
+")).
+Eval vm_compute in ("<<<M4261>>>" ++ check (runes_of_ascii "options {
+    chars = char;
+    o = true
+    u128 = ""x y"";
 }
 
-MetaData x {
-    BodyLength zchar,
+packet chars {
+    @calculatedFrom(""\n"")
+    repeat f64 packetx,
+    @tag(4294967296)
+    float32 Header,
+    zchar[007] float `// not a comment`,
 }
 
-packet metadata {
-    @tag(7)
-    @lengthOf(uint8x)
-    body {
-        u8 Z9_ @calculatedFrom(""it's"") `u8 x,`,
-    },
-    float32 falsey @lengthOf(u) `line1
-    line2`,
+options {
+    stringy = zchar[7];
 }")).
-Eval vm_compute in ("<<<M1762>>>" ++ check (runes_of_ascii "options { trueish = ""`tick`"" ; string_= """ ++ [233]%N ++ runes_of_ascii "t" ++ [233]%N ++ runes_of_ascii """
-    // c
-    } root
-    packet body { stringy @calculatedFrom(
-""a	b"" ) `line1
-line2` `line1
-line2` , }
-packet Logon {
-    @leftPad(
-    ' ' ) //	t
-u16 string_ `u8 x,` ,
+Eval vm_compute in ("<<<M1545>>>" ++ check (runes_of_ascii "packet
+//	t
+// trailing space 
+_x {
+// packet A { u8 x, }
+// c
+char[
+3
+    ] u8x @lengthOf(
+u8x ) , int16""" ++ [128512]%N ++ runes_of_ascii """ // @lengthOf(
+)
+i16	Foo
+@lengthOf(	string_
+    )`doc`	, repeat	i64 metadata , @lengthOf( string_
+) i8 // c
+u  `line1
+line2`	,
 }
 ")).
-Eval vm_compute in ("<<<M1846>>>" ++ check (runes_of_ascii "options { t@leftpadrueish = ""`tick`"" ; string_= """ ++ [233]%N ++ runes_of_ascii "t" ++ [233]%N ++ runes_of_ascii """
+Eval vm_compute in ("<<<M3678>>>" ++ check (runes_of_ascii "
+options
+
+    {
+trueish = ""`tick`""
+	;
+string_
+
+    =
+    """ ++ [233]%N ++ runes_of_ascii "t" ++ [233]%N ++ runes_of_ascii """ 
+        // c
+  }
+    root
+packet
+body  {
+	stringy
+@calculatedFrom(
+	""a	b""
+
+)
+
+    , } 
+packet Logon
+{
+
+@leftPad
+
+(
+' ' ) 	 //	t
+	u16	string_	`u8 x,`	,
+}
+
+")).
+Eval vm_compute in ("<<<M3794>>>" ++ check (runes_of_ascii "options {
+    calculatedFrom = false;
+}
+
+packet i64_ {
+    body,
+    //	t
+    //x
+}/// triple
+
+options {
+    float = true;// @lengthOf(
+    charz = char[65535];
+    u = true;
+    metadata = ""\" ++ [233]%N ++ runes_of_ascii """
+    matchKey = '\x00'
+}// " ++ [27880; 37322]%N)).
+Eval vm_compute in ("<<<M4482>>>" ++ check (runes_of_ascii "/// triple
+packet BodyLength {
+    @calculatedFrom(""packet"")
+    //x
+    char[] options1 @calculatedFrom(""\" ++ [233]%N ++ runes_of_ascii """),
+    zchar[255] metadata,
+}
+
+options {
+    int = '\x00';
+    stringy = false
+    T = 0
+    trueish = 10
+}")).
+Eval vm_compute in ("<<<M1822>>>" ++ check (runes_of_ascii "options { trueish = ""`tick`"" ; string_= """ ++ [233]%N ++ runes_of_ascii "t" ++ [233]%N ++ runes_of_ascii """
     // c
     } root
     packet body { stringy @calculatedFrom(
@@ -2171,10 +2149,10 @@ line2` , }
 packet Logon {
     @leftPad(
     ' ' ) //	t
-u16 string_ `u8 x,` ,
+u16 string_ `u8 x,` `u8 x,` ,
 }
 ")).
-Eval vm_compute in ("<<<M1852>>>" ++ check (runes_of_ascii "options { trueish = ""`tick`"" ; string_= """ ++ [233]%N ++ runes_of_ascii "t" ++ [233]%N ++ runes_of_ascii "@tag""
+Eval vm_compute in ("<<<M1812>>>" ++ check (runes_of_ascii "options { trueish = ""`tick`"" ; string_= """ ++ [233]%N ++ runes_of_ascii "t" ++ [233]%N ++ runes_of_ascii """
     // c
     } root
     packet body { stringy @calculatedFrom(
@@ -2183,7 +2161,7 @@ line2` , }
 packet Logon {
     @leftPad(
     ' ' ) //	t
-u16 string_ `u8 x,` ,
+u16 u16 string_ `u8 x,` ,
 }
 ")).
 Eval vm_compute in ("<<<M124>>>" ++ check (runes_of_ascii "
@@ -2209,9 +2187,9 @@ packet Logon {
 u16 string_ `u8 x,` ,
 }
 ")).
-Eval vm_compute in ("<<<M1716>>>" ++ check (runes_of_ascii "options { trueish = ""`tick`"" ; string_= """ ++ [233]%N ++ runes_of_ascii "t" ++ [233]%N ++ runes_of_ascii """
+Eval vm_compute in ("<<<M1706>>>" ++ check (runes_of_ascii "options { trueish = ""`tick`"" ; string_ """ ++ [233]%N ++ runes_of_ascii "t" ++ [233]%N ++ runes_of_ascii """
     // c
-     root
+    } root
     packet body { stringy @calculatedFrom(
 ""a	b"" ) `line1
 line2` , }
@@ -2233,17 +2211,18 @@ line2` , }
 u16 string_ `u8 x,` ,
 }
 ")).
-Eval vm_compute in ("<<<M110>>>" ++ check (runes_of_ascii "packet i64_
-{	@tag( // a // b
-0123456789) x_y_z@calculatedFrom( ""it's"" ) , @rightPad ( ' ' ) @tag( 007
-    ) leftPad {
-    zchar[00 ]Pad , }
-,int32 _x@lengthOf( BodyLength
-/// triple
-//
-) ,
-}
-")).
+Eval vm_compute in ("<<<M1989>>>" ++ check (runes_of_ascii "MetaData
+    u { }  options {
+// c
+// @lengthOf(
+float = int8 ;rootA =false ; As =	int16 // `tick` ""quote"" 'q'
+repeatCount
+    // trailing space 
+    =
+    int16
+; u8x =
+    //	t
+    '\x00' ; }")).
 Eval vm_compute in ("<<<M1041>>>" ++ check (runes_of_ascii "// @lengthOf(
 options {
     } // c
@@ -2270,522 +2249,464 @@ u8 r_u8
 u16 b_len , } // c14a
   // c14b
 ")).
-Eval vm_compute in ("<<<M515>>>" ++ check (runes_of_ascii "// " ++ [27880; 37322]%N ++ runes_of_ascii "
-MetaData// a // b
-int
-{
-    // `tick` ""quote"" 'q'
-    char[
-    4294967296 ] packetx
-    `line1
-line2`,rootA // trailing space 
-matchKey`two words`, matchKey Packet , }")).
-Eval vm_compute in ("<<<M4489>>>" ++ check (runes_of_ascii "
-
-  root
-
-    packet
-    matchKey {
-zchar[
-3	]
-
-pack	@calculatedFrom(
-
-    ""a	b"")`doc`
-	,
-    } 
-options{
-
-    } MetaData
-
-A { 
-        // c
-
-int8  msg_type ,}
-")).
-Eval vm_compute in ("<<<M1372>>>" ++ check (runes_of_ascii "packet
-x	{ As { a1
-{ char[
-65535 ]
-// " ++ [27880; 37322]%N ++ runes_of_ascii "
-/// triple
-crc `` ,	msg_type ,} , } , repeat Z9_ {
-    T ,	pack ,	repeat tag  A, int64/// triple
-f32a`u8 x,` ,	}
-,
-} 	 ")).
-Eval vm_compute in ("<<<M2387>>>" ++ check (runes_of_ascii "// c
-packet x { @lengthOf( metadata ) repeat lengthOf
-,a1 false
-trueish	,// c
-repeat//	t
-MetaDataX , } , zchar[
-    42	] rootA // `tick` ""quote"" 'q'
-,
-    }
-")).
-Eval vm_compute in ("<<<M4204>>>" ++ check (runes_of_ascii "packet
-
-A
-{
-
-    u16
-len  @lengthOf(
-	body  )`a
-    b
-  c`
-
-    ,
-
-u32
-	crc
-
-@calculatedFrom( ""CRC32"" 
-)`a
-    b
-  c`
-
-    , 
-string
-body
-    ,
-    }")).
-Eval vm_compute in ("<<<M2364>>>" ++ check (runes_of_ascii "// c
-packet x { @lengthOf( metadata ) repeat lengthOf
-,a1{
-trueish	u8// c
-repeat//	t
-MetaDataX , } , zchar[
-    42	] rootA // `tick` ""quote"" 'q'
-,
-    }
-")).
-Eval vm_compute in ("<<<M2380>>>" ++ check (runes_of_ascii "// c
-packet x { @lengthOf( metadata ) repeat lengthOf
-,a1{
-trueish	,// c
-repeat//	t
-MetaDataX , , } zchar[
-    42	] rootA // `tick` ""quote"" 'q'
-,
-    }
-")).
-Eval vm_compute in ("<<<M2409>>>" ++ check (runes_of_ascii "// c
-packet x { @lengthOf( metadata ) repeat lengthOf
-,a1{
-trueish	,// c
-repeat//	t
-MetaDataX  } , zchar[
-    42	] rootA // `tick` ""quote"" 'q'
-,
-    }
-")).
-Eval vm_compute in ("<<<M2347>>>" ++ check (runes_of_ascii "// c
-packet x { @lengthOf( metadata ) repeat lengthOf
-,{
-trueish	,// c
-repeat//	t
-MetaDataX , } , zchar[
-    42	] rootA // `tick` ""quote"" 'q'
-,
-    }
-")).
-Eval vm_compute in ("<<<M60>>>" ++ check (runes_of_ascii "MetaData crc // trailing space 
-{}options
-{ metadata = 10 ; u = 65535
-repeatCount
-    = char[ 0123456789 // packet A { u8 x, }
-]  }MetaData i8i8{ }
-")).
-Eval vm_compute in ("<<<M982>>>" ++ check (runes_of_ascii "packet	u128 { @leftPad ( ' ' )int32 _x `line1
-line2`  ,
-    @leftPad (
-    ) u64 stringy
-    // @lengthOf(
-    @lengthOf( matchKey
-    ) `it's` ,}
-")).
-Eval vm_compute in ("<<<M1188>>>" ++ check (runes_of_ascii "options{ roots=
-    char[ 7 ]
-len // c
-= i32 }
-    // a // b
-    MetaData u8x
-    {i64
-a1
-    , }
-packet metadata { @leftPad
-( ) int64 len, }
-")).
-Eval vm_compute in ("<<<M1165>>>" ++ check (runes_of_ascii "
-MetaData calculatedFrom	{	crc	Logon `` , x
-u8x //x
-`line1
-line2`
-//	t
-// packet A { u8 x, }
-, i64
-u128  ,char[ 0123456789] packetx //x
-, }
-")).
-Eval vm_compute in ("<<<M588>>>" ++ check (runes_of_ascii "MetaData
-packetx  { string
-//	t
-//
-matchKey, /// triple
-u8
-    trueish
-    ,
-// packet A { u8 x, }
+Eval vm_compute in ("<<<M341>>>" ++ check (runes_of_ascii "packet A
+    { @rightPad (' '
+    )/// triple
+@calculatedFrom(""" ++ [233]%N ++ runes_of_ascii "t" ++ [233]%N ++ runes_of_ascii """	) int16
+    crc
+`tab	here` // " ++ [128512]%N ++ runes_of_ascii " emoji
+, }  MetaData x
 // `tick` ""quote"" 'q'
-} // a // b")).
-Eval vm_compute in ("<<<M4124>>>" ++ check (runes_of_ascii "MetaData options1 {
-    lengthOf As,
-    char[255] crc,
-    char[] leftPad,
-    As leftPad,
-    uint16 u128,
-    f32 x `{ , }`,
+// " ++ [27880; 37322]%N ++ runes_of_ascii "
+{
+}
+// trailing space 
+")).
+Eval vm_compute in ("<<<M997>>>" ++ check (runes_of_ascii "options { int = zchar[ // packet A { u8 x, }
+65535] ; zchar
+//x
+// trailing space 
+=  ' ' ;
+chars= // packet A { u8 x, }
+""\" ++ [233]%N ++ runes_of_ascii """ ;
+    Z9_  = '\x00' ;x_y_z = //	t
+false }")).
+Eval vm_compute in ("<<<M2332>>>" ++ check (runes_of_ascii "// c
+packet x { @lengthOf( metadata metadata ) repeat lengthOf
+,a1{
+trueish	,// c
+repeat//	t
+MetaDataX , } , zchar[
+    42	] rootA // `tick` ""quote"" 'q'
+,
+    }
+")).
+Eval vm_compute in ("<<<M2335>>>" ++ check (runes_of_ascii "// c
+packet x { @lengthOf( metadata ) repeat lengthOf
+'\x01',a1{
+trueish	,// c
+repeat//	t
+MetaDataX , } , zchar[
+    42	] rootA // `tick` ""quote"" 'q'
+,
+    }
+")).
+Eval vm_compute in ("<<<M2376>>>" ++ check (runes_of_ascii "// c
+packet x { @lengthOf( metadata ) repeat lengthOf
+,char[{
+trueish	,// c
+repeat//	t
+MetaDataX , } , zchar[
+    42	] rootA // `tick` ""quote"" 'q'
+,
+    }
+")).
+Eval vm_compute in ("<<<M2313>>>" ++ check (runes_of_ascii "// c
+packet x { @lengthOf( metadata ) repeat lengthOf
+,a1{
+trueish	,// c
+repeat//	t
+MetaDataX , } , zchar[
+    42	] rootA // `tick` ""quote"" 'q'
+,
+" ++ [8232]%N ++ runes_of_ascii "    }
+")).
+Eval vm_compute in ("<<<M2324>>>" ++ check (runes_of_ascii "// c
+packet x { @lengthOf( metadata ) repeat lengthOf
+,a1{
+trueish	repeat// c
+,//	t
+MetaDataX , } , zchar[
+    42	] rootA // `tick` ""quote"" 'q'
+,
+    }
+")).
+Eval vm_compute in ("<<<M2354>>>" ++ check (runes_of_ascii "// c
+packet x { @lengthOf( metadata ) char[ lengthOf
+,a1{
+trueish	,// c
+repeat//	t
+MetaDataX , } , zchar[
+    42	] rootA // `tick` ""quote"" 'q'
+,
+    }
+")).
+Eval vm_compute in ("<<<M2161>>>" ++ check (runes_of_ascii "options{
+_x
+= true
+} options
+{ o	= /// triple
+false
+    ; chars
+= ""\n"" } root Pad	packet
+/// triple
+// packet A { u8 x, }
+{	chars
+    // a // b
+    ,}")).
+Eval vm_compute in ("<<<M2315>>>" ++ check (runes_of_ascii "// c
+packet x { @lengthOf( metadata ) repeat lengthOf
+,a1{
+trueish	,// c
+repeat//	t
+`" ++ [28040; 24687; 31867; 22411]%N ++ runes_of_ascii "` , } , zchar[
+    42	] rootA // `tick` ""quote"" 'q'
+,
+    }
+")).
+Eval vm_compute in ("<<<M2177>>>" ++ check (runes_of_ascii "options{
+_x
+= true
+} options
+{ o	= /// triple
+false
+    ; chars
+= ""\n"" } root packet	Pad
+/// triple
+// packet A { u8 x, }
+{	=
+    // a // b
+    ,}")).
+Eval vm_compute in ("<<<M772>>>" ++ check (runes_of_ascii "
+MetaData string_ //	t
+{ stringy metadata
+    , // packet A { u8 x, }
+lengthOf int
+``,
+    f32a u8x	,
+u32//
+tag ,	falsey repeatCount ,
+    }
+")).
+Eval vm_compute in ("<<<M4150>>>" ++ check (runes_of_ascii "packet As {
+}
+
+MetaData charz {
+    i64 falsey,
+    A msg_type,
+    char[3] trueish `say ""hi""`,
+    float32 calculatedFrom,
+    string i8i8,
 }")).
-Eval vm_compute in ("<<<M632>>>" ++ check (runes_of_ascii "packet	roots { zchar @lengthOf(calculatedFrom )  `" ++ [233]%N ++ runes_of_ascii "` , zchar[ 1] Foo `
-`, }
-options {
-    i64_ = ""a\\"" Logon= 1
-i64_= i64	}
-")).
-Eval vm_compute in ("<<<M3311>>>" ++ check (runes_of_ascii "
-// c
-root packet matchKey { zchar[ 3 ] pack @calculatedFrom( ""a	b"" ) `doc` , } options { } MetaData A { int8 msg_type , }")).
-Eval vm_compute in ("<<<M3329>>>" ++ check (runes_of_ascii "root packet matchKey { zchar[ 3 ] pack @calculatedFrom(
-// c
-""a	b"" ) `doc` , } options { } MetaData A { int8 msg_type , }")).
-Eval vm_compute in ("<<<M70>>>" ++ check (runes_of_ascii "
-options {  MetaDataX= ""\" ++ [233]%N ++ runes_of_ascii """ }options {
+Eval vm_compute in ("<<<M20>>>" ++ check (runes_of_ascii "options { x_y_z =  """ ++ [128512]%N ++ runes_of_ascii """
+/// triple
 // @lengthOf(
-//	t
-Logon = ""1""
-    x_y_z = 65535  } MetaData
-    //	t
-    u8x {}
-")).
-Eval vm_compute in ("<<<M3553>>>" ++ check (runes_of_ascii "
-
-  packet B
-
-{
-
-u8
-    a
-    , string
-s	,
-}
-
-root  packet P
-
-{
-	u16 
-L
-@lengthOf(B ) ,	B,
-
-    u8
-    t
-    ,
-}
-")).
-Eval vm_compute in ("<<<M1407>>>" ++ check (runes_of_ascii "
+options1 =
+""a\\""  ;
+    x_y_z  = 255 ; } //x
 packet
-    falsey  Header@calculatedFrom(""packet""  ) , char[
+    charz {
+    } // trailing space ")).
+Eval vm_compute in ("<<<M3580>>>" ++ check (runes_of_ascii "packet A {
+    u8 a,
+}
+packet B {
+    u16 b,
+}
+root packet P {
+    u8 K,
+    match K as M {
+        1 : A,
+        1 : B,
+    },
+}
+")).
+Eval vm_compute in ("<<<M1082>>>" ++ check (runes_of_ascii "packet i8i8 {
+@calculatedFrom( // @lengthOf(
+""it's"")@leftPad ( // " ++ [27880; 37322]%N ++ runes_of_ascii "
+'0'
+) @lengthOf(msg_type  )u8 Logon
+    `tab	here`,
+}
+")).
+Eval vm_compute in ("<<<M607>>>" ++ check (runes_of_ascii "options
+{ stringy=
+    '0' ; body// `tick` ""quote"" 'q'
+=  ""// no comment"" ; pack
+    =
+char[] } options
+{
+x =65535 } //x")).
+Eval vm_compute in ("<<<M3323>>>" ++ check (runes_of_ascii "root packet matchKey { zchar[ 3
+// c
+] pack @calculatedFrom( ""a	b"" ) `doc` , } options { } MetaData A { int8 msg_type , }")).
+Eval vm_compute in ("<<<M3355>>>" ++ check (runes_of_ascii "root packet matchKey { zchar[ 3 ] pack @calculatedFrom( ""a	b"" ) `doc` , } options { } MetaData A { int8 msg_type
+// c
+, }")).
+Eval vm_compute in ("<<<M1474>>>" ++ check (runes_of_ascii "
+packet
+    false" ++ [233]%N ++ runes_of_ascii "y { Header@calculatedFrom(""packet""  ) , char[
     0123456789 ] packetx
     , } // `tick` ""quote"" 'q'")).
-Eval vm_compute in ("<<<M4416>>>" ++ check (runes_of_ascii "  packet A{ 
-match
+Eval vm_compute in ("<<<M1449>>>" ++ check (runes_of_ascii "
+packet
+    falsey { Header@calculatedFrom(""packet""  ) , char[
+    0123456789 packetx ]
+    , } // `tick` ""quote"" 'q'")).
+Eval vm_compute in ("<<<M3051>>>" ++ check (runes_of_ascii "packet A {
+    match k as n {
+        ""x\
+y"" : B,
+        [""x\
+y"", 1] : C,
+        [1,2,3,4,5,""x\
+y""] : D,
+    },
+}")).
+Eval vm_compute in ("<<<M2998>>>" ++ check (runes_of_ascii "packet A {
+  match k as n {
+    [""a"", ""bb"", 007, ""d"", ""e"", 66, ""g"", ""h"", 9, ""j"", ""k"", 12] : B,
+    2 : C
+  },
+}")).
+Eval vm_compute in ("<<<M4097>>>" ++ check (runes_of_ascii "
+packet
 
-    k as
-	n {
-[ 1
-,  22 ,
-	007
+A
 
-, 
-4, 
-5 
-,
+{ match k as
+n
+{[ 
+""a""
+
+, 22  ,""c c"" ,
+	4 , 
+""e"",
 
 66
-	,
-
-7	,
-
-8,
-
-9 ]:  B ,
-    2
-: C
-},
-    }")).
-Eval vm_compute in ("<<<M1104>>>" ++ check (runes_of_ascii "root //	t
-packet roots { // " ++ [27880; 37322]%N ++ runes_of_ascii "
-} packet
-    matchKey {
-@calculatedFrom( ""a\""b"" )char[]tag // @lengthOf(
-, }
-")).
-Eval vm_compute in ("<<<M35>>>" ++ check (runes_of_ascii "options { body = 42 ;Logon
-// @lengthOf(
-// " ++ [27880; 37322]%N ++ runes_of_ascii "
-=
-    '0'
-    ; metadata=
-""" ++ [128512]%N ++ runes_of_ascii """; Foo =true//
-i64_
-='\x00'  }
-")).
-Eval vm_compute in ("<<<M3703>>>" ++ check (runes_of_ascii "MetaData
-Packet
-
-    {
-    }
-
-    options {
-
-    Z9_ =
-char[]	;
-    _x
-= '0'
-
-;
-
-body  = false
-} ")).
-Eval vm_compute in ("<<<M283>>>" ++ check (runes_of_ascii "MetaData asx { chars
-f32a , string /// triple
-T , } options
-{ zchar=
-    10
-    // " ++ [27880; 37322]%N ++ runes_of_ascii "
-    crc= true}
-")).
-Eval vm_compute in ("<<<M645>>>" ++ check (runes_of_ascii "packet lengthOf
-{match u128	as i8i8
-// " ++ [128512]%N ++ runes_of_ascii " emoji
-// c
-{""a\\"" :Header
-, } // `tick` ""quote"" 'q'
-, }")).
-Eval vm_compute in ("<<<M3735>>>" ++ check (runes_of_ascii "MetaData float {
+	,""g"" , 8	, ""i""] :B 2 :
+    C	}
+    , } ")).
+Eval vm_compute in ("<<<M2993>>>" ++ check (runes_of_ascii "packet A {
+  match k as n {
+    [1, ""bb"", 007, ""d"", 5, ""f"", 7, ""h"", 9, ""j"", 11, ""l""] : B
+    2 : C
+  },
+}")).
+Eval vm_compute in ("<<<M2972>>>" ++ check (runes_of_ascii "packet A {
+  match k as n {
+    [""a"", ""bb"", 007, ""d"", ""e"", 66, ""g"", ""h"", 9, ""j""] : B,
+    2 : C
+  },
+}")).
+Eval vm_compute in ("<<<M3709>>>" ++ check (runes_of_ascii "MetaData float {
     float64 charz `
     `,
-}
+}// c
 
 root packet chars {
     @rightPad('0')
     Foo,
 }")).
-Eval vm_compute in ("<<<M998>>>" ++ check (runes_of_ascii "  MetaData stringy { zchar[ 4294967296
-] charz , string// `tick` ""quote"" 'q'
-x_y_z
-    ,  }
-
-")).
-Eval vm_compute in ("<<<M2954>>>" ++ check (runes_of_ascii "packet A {
-  match k as n {
-    [1, ""bb"", 007, ""d"", 5, ""f"", 7, ""h"", 9] : B
-    2 : C
-  },
-}")).
-Eval vm_compute in ("<<<M2943>>>" ++ check (runes_of_ascii "packet A {
-  match k as n {
-    [""a"", 22, ""c c"", 4, ""e"", 66, ""g"", 8] : B
-    2 : C
-  },
-}")).
-Eval vm_compute in ("<<<M3297>>>" ++ check (runes_of_ascii "MetaData float { float64 charz `
-` , } root packet chars { @rightPad ( '0' // c
-) Foo , }")).
-Eval vm_compute in ("<<<M3508>>>" ++ check (runes_of_ascii "packet chars { } packet MetaDataX { @tag( 42 ) i16 string_
+Eval vm_compute in ("<<<M1541>>>" ++ check (runes_of_ascii "packet
+//	t
+// trailing space 
+_x {
+// packet A { u8 x, }
 // c
-, repeat x `say ""hi""` , }")).
-Eval vm_compute in ("<<<M2941>>>" ++ check (runes_of_ascii "packet A {
-  match k as n {
-    [1, ""bb"", 007, ""d"", 5, ""f"", 7, ""h""] : B
-    2 : C
-  },
-}")).
-Eval vm_compute in ("<<<M4089>>>" ++ check (runes_of_ascii "packet
-
-A
-    {
-	u32
-
-crc @calculatedFrom(
-""\
-""
-) , @calculatedFrom( ""\
-""
-
-)u8
-	y,
+char[
+3
+    ] u8x @lengthOf(
+u8x )")).
+Eval vm_compute in ("<<<M172>>>" ++ check (runes_of_ascii "
+options
+    // " ++ [128512]%N ++ runes_of_ascii " emoji
+    {  roots= false ; f32a = ""// no comment""
+// " ++ [128512]%N ++ runes_of_ascii " emoji
+// a // b
+;
 }
 ")).
-Eval vm_compute in ("<<<M3215>>>" ++ check (runes_of_ascii "packet metadata // c
-{ Logon { A `" ++ [28040; 24687; 31867; 22411]%N ++ runes_of_ascii "` , tag o , } , zchar len `// not a comment` , }")).
-Eval vm_compute in ("<<<M3428>>>" ++ check (runes_of_ascii "
-// c
-packet o { repeat Logon uint8x , } options { asx = zchar[ 3 ] stringy = '\x00' }")).
-Eval vm_compute in ("<<<M3435>>>" ++ check (runes_of_ascii "packet o { repeat // c
-Logon uint8x , } options { asx = zchar[ 3 ] stringy = '\x00' }")).
-Eval vm_compute in ("<<<M4161>>>" ++ check (runes_of_ascii "
-packet A { B b`tab
-	x`
-    ,B
-
-    `tab
-	x` 
-, 
+Eval vm_compute in ("<<<M4320>>>" ++ check (runes_of_ascii "  // c
+    packet
+o
+{
 repeat
-B 
-bs `tab
-	x`,
+Logon
 
-    }
+uint8x, }
+options{ asx
+
+=zchar[
+3]	stringy
+
+='\x00' }
 ")).
-Eval vm_compute in ("<<<M3423>>>" ++ check (runes_of_ascii "MetaData body { i64 pack `it's` , } packet stringy { int16 calculatedFrom , }
+Eval vm_compute in ("<<<M984>>>" ++ check (runes_of_ascii "options{ string_ = ""CRC32""	; charz =
+'\x00';
+i64_	=' ' i64_ =""a\""b""  ;
+uint8x= """"
+    ;}
+")).
+Eval vm_compute in ("<<<M3271>>>" ++ check (runes_of_ascii "MetaData float // c
+{ float64 charz `
+` , } root packet chars { @rightPad ( '0' ) Foo , }")).
+Eval vm_compute in ("<<<M3303>>>" ++ check (runes_of_ascii "MetaData float { float64 charz `
+` , } root packet chars { @rightPad ( '0' ) Foo , // c
+}")).
+Eval vm_compute in ("<<<M3514>>>" ++ check (runes_of_ascii "packet chars { } packet MetaDataX { @tag( 42 ) i16 string_ , repeat x
 // c
+`say ""hi""` , }")).
+Eval vm_compute in ("<<<M1050>>>" ++ check (runes_of_ascii "packet matchKey // @lengthOf(
+{ // packet A { u8 x, }
+@leftPad( '0' ) int16 options1,}
 ")).
-Eval vm_compute in ("<<<M3412>>>" ++ check (runes_of_ascii "MetaData body { i64 pack `it's` , } packet stringy // c
-{ int16 calculatedFrom , }")).
+Eval vm_compute in ("<<<M1195>>>" ++ check (runes_of_ascii "// " ++ [27880; 37322]%N ++ runes_of_ascii "
+MetaData msg_type{} MetaData Pad
+    { int64 Header
+,
+} MetaData matchKey { } //")).
+Eval vm_compute in ("<<<M3222>>>" ++ check (runes_of_ascii "packet metadata { Logon {
+// c
+A `" ++ [28040; 24687; 31867; 22411]%N ++ runes_of_ascii "` , tag o , } , zchar len `// not a comment` , }")).
+Eval vm_compute in ("<<<M2211>>>" ++ check (runes_of_ascii "string
+{ } options { BodyLength= u16 Header= f64 ; u128 =
+    true
+    ; } // a // b")).
+Eval vm_compute in ("<<<M3445>>>" ++ check (runes_of_ascii "packet o { repeat Logon uint8x , } options // c
+{ asx = zchar[ 3 ] stringy = '\x00' }")).
+Eval vm_compute in ("<<<M3835>>>" ++ check (runes_of_ascii "packet stringy {
+    @lengthOf(crc)
+    string repeatCount @calculatedFrom(""{,}""),
+}")).
+Eval vm_compute in ("<<<M2276>>>" ++ check (runes_of_ascii "options
+{ } options { BodyLength= u16 Header= f64 ; u128 =
+    
+    ; } // a // b")).
+Eval vm_compute in ("<<<M3420>>>" ++ check (runes_of_ascii "MetaData body { i64 pack `it's` , } packet stringy { int16 calculatedFrom , // c
+}")).
 Eval vm_compute in ("<<<M2907>>>" ++ check (runes_of_ascii "packet A {
   match k as n {
     [""a"", ""bb"", 007, ""d"", ""e""] : B,
     2 : C
   },
 }")).
-Eval vm_compute in ("<<<M1234>>>" ++ check (runes_of_ascii "//
-options{charz
-= ""1"" trueish = """" ;  asx =
-'0'i8i8 //	t
-=
-    ""it's""	;  }")).
-Eval vm_compute in ("<<<M2905>>>" ++ check (runes_of_ascii "packet A {
+Eval vm_compute in ("<<<M2904>>>" ++ check (runes_of_ascii "packet A {
   match k as n {
-    [1, 22, ""c c"", 4, 5] : B,
+    [""a"", 22, ""c c"", 4, ""e""] : B
     2 : C
   },
 }")).
-Eval vm_compute in ("<<<M2874>>>" ++ check (runes_of_ascii "packet A {
+Eval vm_compute in ("<<<M2895>>>" ++ check (runes_of_ascii "packet A {
   match k as n {
-    [""a"", ""bb"", ""c c""] : B
+    [""a"", ""bb"", 007, ""d""] : B
     2 : C
   },
 }")).
-Eval vm_compute in ("<<<M1382>>>" ++ check (runes_of_ascii "options
-{	trueish = f64
-    ;
-i8i8  =
-int16 ;rootA = ""`tick`"" ;} 	 ")).
-Eval vm_compute in ("<<<M3251>>>" ++ check (runes_of_ascii "// top
-root // c0a
-  // c0b
-packet pack // c2a
-  // c2b
-{ // c3
-} ")).
-Eval vm_compute in ("<<<M1144>>>" ++ check (runes_of_ascii "packet
-    pack { int64 options1  ,
-// packet A { u8 x, }
-//
+Eval vm_compute in ("<<<M4177>>>" ++ check (runes_of_ascii "packet A {
+    match k as n {
+        [""a""] : B,
+        2 : C,
+    },
+}")).
+Eval vm_compute in ("<<<M2882>>>" ++ check (runes_of_ascii "packet A {
+  match k as n {
+    [""a"", ""bb"", 007] : B
+    2 : C
+  },
+}")).
+Eval vm_compute in ("<<<M2871>>>" ++ check (runes_of_ascii "packet A {
+  match k as n {
+    [1, 22, 007] : B,
+    2 : C
+  },
+}")).
+Eval vm_compute in ("<<<M596>>>" ++ check (runes_of_ascii "packet falsey { @tag(
+    1 ) repeat zchar[00
+    ] tag,
+    }
+")).
+Eval vm_compute in ("<<<M481>>>" ++ check (runes_of_ascii "MetaData x_y_z{ i8 //
+leftPad
+    , string
+body `" ++ [28040; 24687; 31867; 22411]%N ++ runes_of_ascii "` , }
+
+")).
+Eval vm_compute in ("<<<M3539>>>" ++ check (runes_of_ascii "root packet P {
+    hdr {
+        u8 a,
+    },
+    u8 x,
 }
 ")).
-Eval vm_compute in ("<<<M2747>>>" ++ check (runes_of_ascii "options int8 x_y_z i16 char[ char[] @calculatedFrom( packet =")).
-Eval vm_compute in ("<<<M2138>>>" ++ check (runes_of_ascii "options{
-_x
-= true
-} options
-{ o	= /// triple
-false
-    ;")).
-Eval vm_compute in ("<<<M3754>>>" ++ check (runes_of_ascii "packet x {
-    @rightPad()
-    repeat roots Logon `doc`,
-}")).
-Eval vm_compute in ("<<<M300>>>" ++ check (runes_of_ascii "
-MetaData trueish // c
-{  string	trueish `it's`	,
-}")).
-Eval vm_compute in ("<<<M4569>>>" ++ check (runes_of_ascii "MetaData stringy {
-    zchar[007] body `tab	here`,
-}")).
+Eval vm_compute in ("<<<M3379>>>" ++ check (runes_of_ascii "packet x { @rightPad ( ) repeat roots // c
+Logon `doc` , }")).
+Eval vm_compute in ("<<<M805>>>" ++ check (runes_of_ascii "options { Packet =// @lengthOf(
+""\n"";// c
+}
+// " ++ [128512]%N ++ runes_of_ascii " emoji
+")).
+Eval vm_compute in ("<<<M3796>>>" ++ check (runes_of_ascii "  packet
+A {
+
+    u8 x
+    `d" ++ [5760]%N ++ runes_of_ascii "`
+    ,  // c" ++ [5760]%N ++ runes_of_ascii "
+		} ")).
 Eval vm_compute in ("<<<M1246>>>" ++ check (runes_of_ascii "options// trailing space 
 { lengthOf =
 '0'
 ;}
 ")).
-Eval vm_compute in ("<<<M4056>>>" ++ check (runes_of_ascii "  packet
-	int
-{
-    }
-packet
-    roots{  }
+Eval vm_compute in ("<<<M3839>>>" ++ check (runes_of_ascii "  packet A{
 
-")).
-Eval vm_compute in ("<<<M3469>>>" ++ check (runes_of_ascii "// top
-MetaData // c0
-o // c1
-{ }
-    // c3
-")).
-Eval vm_compute in ("<<<M4293>>>" ++ check (runes_of_ascii "packet Logon {
-    string u `two words`,
-}")).
-Eval vm_compute in ("<<<M3196>>>" ++ check (runes_of_ascii "root packet u128 {
-// c
-chars `it's` , }")).
-Eval vm_compute in ("<<<M2745>>>" ++ check (runes_of_ascii ":4RjM4nCa.YX!, >bNh(Sx""yjArkf-7J.QvXp ")).
-Eval vm_compute in ("<<<M3048>>>" ++ check (runes_of_ascii "root packet A {
-    u8 x `tab
-	x`,
-}")).
-Eval vm_compute in ("<<<M135>>>" ++ check (runes_of_ascii "MetaData pack { f64 A `{ , }` ,}
+    u8
 
-")).
-Eval vm_compute in ("<<<M2733>>>" ++ check (runes_of_ascii "}6.&v:_D^b!EF*T3wXu*H*=10%2uRO\IT")).
-Eval vm_compute in ("<<<M4481>>>" ++ check (runes_of_ascii "packet A {
-    u8 x `d" ++ [65279]%N ++ runes_of_ascii "`,// c" ++ [65279]%N ++ runes_of_ascii "
+    x	`a
+b`
+    ,
+	}")).
+Eval vm_compute in ("<<<M4047>>>" ++ check (runes_of_ascii "options {
+    zchar = int32;
+    T = false
 }")).
-Eval vm_compute in ("<<<M3082>>>" ++ check (runes_of_ascii "packet A {
- u8 x `d" ++ [5760]%N ++ runes_of_ascii "`, // c" ++ [5760]%N ++ runes_of_ascii "
+Eval vm_compute in ("<<<M2626>>>" ++ check (runes_of_ascii "packet A { @leftPad('0' '0') char[2] x, }")).
+Eval vm_compute in ("<<<M3201>>>" ++ check (runes_of_ascii "root packet u128 { chars `it's` , // c
 }")).
-Eval vm_compute in ("<<<M2113>>>" ++ check (runes_of_ascii "options{
-_x
-= true
-} options")).
-Eval vm_compute in ("<<<M4536>>>" ++ check (runes_of_ascii "// top
-root packet pack {
+Eval vm_compute in ("<<<M3725>>>" ++ check (runes_of_ascii "root packet u128 {
+    chars `it's`,
 }")).
-Eval vm_compute in ("<<<M3164>>>" ++ check (runes_of_ascii "options { a = 1 // a
- ; }")).
-Eval vm_compute in ("<<<M1175>>>" ++ check (runes_of_ascii "options { u = string }
-")).
-Eval vm_compute in ("<<<M2706>>>" ++ check ([65533; 65533; 15; 65533]%N ++ runes_of_ascii "L" ++ [1963; 65533]%N ++ runes_of_ascii "B" ++ [65533; 26]%N ++ runes_of_ascii "h%" ++ [20]%N ++ runes_of_ascii "B" ++ [65533]%N ++ runes_of_ascii "k" ++ [65533]%N ++ runes_of_ascii "4" ++ [65533; 65533; 65533]%N)).
-Eval vm_compute in ("<<<M268>>>" ++ check (runes_of_ascii "  packet
-chars	{ }
-")).
-Eval vm_compute in ("<<<M3477>>>" ++ check (runes_of_ascii "MetaData o {
+Eval vm_compute in ("<<<M3812>>>" ++ check (runes_of_ascii "packet trueish {
+    uint16 chars,
+}")).
+Eval vm_compute in ("<<<M2582>>>" ++ check (runes_of_ascii "packet A { char[3] @lengthOf(y), }")).
+Eval vm_compute in ("<<<M4593>>>" ++ check (runes_of_ascii "packet body {
+    // @lengthOf(
+}")).
+Eval vm_compute in ("<<<M2721>>>" ++ check (runes_of_ascii ";" ++ [65533; 1004; 28; 65533]%N ++ runes_of_ascii "K" ++ [26453]%N ++ runes_of_ascii ":qC" ++ [65533]%N ++ runes_of_ascii "mM" ++ [22; 65533; 65533]%N ++ runes_of_ascii "V" ++ [5; 65533; 17; 65533; 65533]%N ++ runes_of_ascii "	" ++ [65533; 65533; 65533; 65533]%N ++ runes_of_ascii "4" ++ [65533; 22; 65533]%N)).
+Eval vm_compute in ("<<<M3112>>>" ++ check (runes_of_ascii "packet A {
+ u8 x `d" ++ [8287]%N ++ runes_of_ascii "`, // c" ++ [8287]%N ++ runes_of_ascii "
+}")).
+Eval vm_compute in ("<<<M2755>>>" ++ check (runes_of_ascii "6p~" ++ [65533]%N ++ runes_of_ascii "d" ++ [65533; 65533]%N ++ runes_of_ascii "!&" ++ [65533; 65533]%N ++ runes_of_ascii "R" ++ [65533]%N ++ runes_of_ascii "u" ++ [65533]%N ++ runes_of_ascii "JR+a" ++ [65533; 31]%N ++ runes_of_ascii "}" ++ [65533; 65533; 23; 0; 65533; 65533]%N)).
+Eval vm_compute in ("<<<M93>>>" ++ check (runes_of_ascii "packet repeatCount{	} // c")).
+Eval vm_compute in ("<<<M3252>>>" ++ check (runes_of_ascii "// c
+root packet pack { }")).
+Eval vm_compute in ("<<<M4567>>>" ++ check (runes_of_ascii "options {
+}
+
+options {
+}")).
+Eval vm_compute in ("<<<M703>>>" ++ check (runes_of_ascii "  root  packet As { }")).
+Eval vm_compute in ("<<<M3471>>>" ++ check (runes_of_ascii "
 // c
-}")).
-Eval vm_compute in ("<<<M3091>>>" ++ check (runes_of_ascii "// c" ++ [8202]%N ++ runes_of_ascii "
+MetaData o { }")).
+Eval vm_compute in ("<<<M3145>>>" ++ check (runes_of_ascii "packet A {
+}
+// c x")).
+Eval vm_compute in ("<<<M3086>>>" ++ check (runes_of_ascii "// c" ++ [8192]%N ++ runes_of_ascii "
 packet A {
 }")).
-Eval vm_compute in ("<<<M2569>>>" ++ check (runes_of_ascii "packet A { u8 x }")).
+Eval vm_compute in ("<<<M2568>>>" ++ check (runes_of_ascii "packet A { u8 , }")).
 Eval vm_compute in ("<<<M726>>>" ++ check (runes_of_ascii "packet u8x {  }
 ")).
 Eval vm_compute in ("<<<M2631>>>" ++ check (runes_of_ascii "packet A { } ;")).
-Eval vm_compute in ("<<<M308>>>" ++ check (runes_of_ascii "options{
+Eval vm_compute in ("<<<M4553>>>" ++ check (runes_of_ascii "packet x {
 }")).
-Eval vm_compute in ("<<<M2729>>>" ++ check (runes_of_ascii "6)@""I`81R")).
-Eval vm_compute in ("<<<M2462>>>" ++ check (runes_of_ascii "packets")).
-Eval vm_compute in ("<<<M3144>>>" ++ check (runes_of_ascii "// c x")).
-Eval vm_compute in ("<<<M3094>>>" ++ check (runes_of_ascii "// c" ++ [8232]%N)).
-Eval vm_compute in ("<<<M2543>>>" ++ check (runes_of_ascii "[[]]")).
-Eval vm_compute in ("<<<M2544>>>" ++ check (runes_of_ascii "a	b")).
-Eval vm_compute in ("<<<M2555>>>" ++ check (runes_of_ascii "a" ++ [233]%N)).
+Eval vm_compute in ("<<<M2784>>>" ++ check (runes_of_ascii "drJtYG.{8")).
+Eval vm_compute in ("<<<M2779>>>" ++ check (runes_of_ascii "3" ++ [65533; 3]%N ++ runes_of_ascii "4" ++ [65533]%N ++ runes_of_ascii "*M")).
+Eval vm_compute in ("<<<M2433>>>" ++ check (runes_of_ascii "char1")).
+Eval vm_compute in ("<<<M3139>>>" ++ check (runes_of_ascii "// c" ++ [6158]%N)).
+Eval vm_compute in ("<<<M179>>>" ++ check (runes_of_ascii "  
+")).
+Eval vm_compute in ("<<<M2781>>>" ++ check (runes_of_ascii "u32")).
+Eval vm_compute in ("<<<M2495>>>" ++ check (runes_of_ascii "@")).
